@@ -111,6 +111,7 @@ Qed.
 (* ------------------------------------------------------------------ *)
 
 Ltac inv H := inversion H; subst; clear H.
+Ltac inj3 H := injection H as <- <- <-.
 
 (* the cases of read_record on a state without a latched read error *)
 Ltac rr_cases st :=
@@ -176,6 +177,74 @@ Proof.
     inv H; cbn; auto.
 Qed.
 
+(* readRecord does not touch the connection-wide latch *)
+Lemma read_record_fatal : forall st st' e sent,
+  read_record st = (st', e, sent) -> s_fatal st' = s_fatal st.
+Proof.
+  intros st st' e sent H. unfold read_record in H.
+  destruct (s_in_err st).
+  { inv H. reflexivity. }
+  rr_cases st;
+    repeat match goal with
+           | H : context [match ?a with Some _ => _ | None => _ end] |- _ => destruct a
+           end;
+    inv H; reflexivity.
+Qed.
+
+(* ------------------------------------------------------------------ *)
+(* noteFatal                                                           *)
+(* ------------------------------------------------------------------ *)
+
+(* what noteFatal records for an error when nothing was recorded before *)
+Definition fatal_class (x : eclass) : option eclass :=
+  match x with XEof | XShutdown | XBlock => None | _ => Some x end.
+
+(* noteFatal touches nothing but the latch *)
+Definition same_but_fatal (a b : state) : Prop :=
+  s_plan b = s_plan a /\ s_hs b = s_hs a /\ s_in_err b = s_in_err a /\ s_out_err b = s_out_err a /\
+  s_cns b = s_cns a /\ s_cn_err b = s_cn_err a /\ s_closed b = s_closed a /\ s_rawclosed b = s_rawclosed a /\
+  s_input b = s_input a /\ s_hand b = s_hand a /\ s_retry b = s_retry a /\ s_raw b = s_raw a /\
+  s_wire b = s_wire a /\ s_ended b = s_ended a /\ s_peergone b = s_peergone a.
+
+Lemma note_fatal_same : forall st e, same_but_fatal st (note_fatal st e).
+Proof.
+  intros st e. unfold note_fatal, same_but_fatal.
+  destruct e as [x|]; [|tauto]. destruct x; try tauto; destruct (s_fatal st); cbn; tauto.
+Qed.
+
+Lemma note_fatal_latch : forall st x,
+  s_fatal (note_fatal st (Some x)) = match s_fatal st with Some f => Some f | None => fatal_class x end.
+Proof.
+  intros st x. unfold note_fatal, fatal_class. destruct x; destruct (s_fatal st) eqn:E; cbn; rewrite ?E; reflexivity.
+Qed.
+
+Lemma note_fatal_keep : forall st e f, s_fatal st = Some f -> s_fatal (note_fatal st e) = Some f.
+Proof.
+  intros st e f H. destruct e as [x|]; [|exact H]. rewrite note_fatal_latch, H. reflexivity.
+Qed.
+
+Lemma note_fatal_set : forall st e, s_fatal st <> None -> s_fatal (note_fatal st e) <> None.
+Proof.
+  intros st e H. destruct (s_fatal st) as [f|] eqn:E; [|contradiction].
+  rewrite (note_fatal_keep _ e _ E). discriminate.
+Qed.
+
+(* the first fatal error is recorded *)
+Lemma note_fatal_first : forall st x,
+  s_fatal st = None -> fatal_class x = Some x -> note_fatal st (Some x) = set_fatal st (Some x).
+Proof.
+  intros st x Hn Hx. unfold note_fatal. rewrite Hn. destruct x; try discriminate; reflexivity.
+Qed.
+
+Ltac nf_fields st e :=
+  let H := fresh "Hnf" in
+  pose proof (note_fatal_same st e) as H; unfold same_but_fatal in H;
+  destruct H as (?&?&?&?&?&?&?&?&?&?&?&?&?&?&?).
+
+(* from here on noteFatal is used through the lemmas above only (injection / inversion
+   would otherwise unfold it) *)
+Global Opaque note_fatal.
+
 (* an alert sent by this endpoint latches the write half too *)
 Definition alert_sent (e : eclass) : Prop :=
   match e with XLocal _ | XTooMany => True | _ => False end.
@@ -189,6 +258,9 @@ Definition recv_err (e : eclass) : Prop :=
 Definition wf (st : state) : Prop :=
   (forall e, s_in_err st = Some e -> recv_err e \/ (alert_sent e /\ s_out_err st <> None)) /\
   (forall e, s_out_err st = Some e -> (exists c, e = XLocal c) \/ e = XClosed).
+
+Lemma wf_same : forall a b, s_in_err b = s_in_err a -> s_out_err b = s_out_err a -> wf a -> wf b.
+Proof. intros a b Hi Ho [H1 H2]. split; [rewrite Hi, Ho | rewrite Ho]; assumption. Qed.
 
 Lemma scan_err_class : forall evs r e a rest r',
   scan evs r = ScErr e a rest r' ->
@@ -272,7 +344,7 @@ Qed.
 Definition same_io (a b : state) : Prop :=
   s_plan b = s_plan a /\ s_in_err b = s_in_err a /\ s_out_err b = s_out_err a /\ s_cns b = s_cns a /\
   s_cn_err b = s_cn_err a /\ s_closed b = s_closed a /\ s_input b = s_input a /\ s_hand b = s_hand a /\
-  s_ended b = s_ended a /\ s_peergone b = s_peergone a.
+  s_ended b = s_ended a /\ s_peergone b = s_peergone a /\ s_fatal b = s_fatal a.
 
 Lemma same_io_refl : forall a, same_io a a.
 Proof. intros. unfold same_io. tauto. Qed.
@@ -362,45 +434,85 @@ Proof. intros st k x H. unfold handshake. rewrite H. reflexivity. Qed.
 (* fill, close_notify                                                  *)
 (* ------------------------------------------------------------------ *)
 
-Lemma fill_frame : forall st st' e sent,
-  fill st = (st', e, sent) ->
-  same_ctl st st' /\ (s_out_err st <> None -> s_out_err st' <> None) /\ sent_app sent = false.
+(* read_record's effect on the write half: untouched, unless an alert went out *)
+Lemma read_record_out : forall st st' e sent,
+  read_record st = (st', e, sent) ->
+  s_out_err st' = s_out_err st \/ exists x, e = Some x /\ alert_sent x.
 Proof.
-  intros st st' e sent H. unfold fill in H.
-  destruct (s_input st).
-  2:{ inv H. split; [apply same_ctl_refl|]. split; [tauto|reflexivity]. }
+  intros st st' e sent H. unfold read_record in H.
+  destruct (s_in_err st).
+  { inv H. auto. }
+  assert (Ha : forall evs r ee c rest r', scan evs r = ScErr ee (Some c) rest r' -> alert_sent ee).
+  { intros evs r ee c rest r' Hs.
+    destruct (scan_err_class _ _ _ _ _ _ Hs) as [[_ C]|[[x [_ C]]|[[x [-> _]]|[-> _]]]]; try discriminate; exact I. }
+  rr_cases st;
+    repeat match goal with
+           | H : context [match ?a with Some _ => _ | None => _ end] |- _ => destruct a
+           end;
+    inv H; cbn; auto; right; eexists; (split; [reflexivity|]); eapply Ha; eauto.
+Qed.
+
+(* Conn.Read's readRecord + noteFatal + rejection of a handshake record *)
+Lemma read_checked_frame : forall st st' e sent,
+  read_checked st = (st', e, sent) ->
+  same_ctl st st' /\ (s_out_err st <> None -> s_out_err st' <> None) /\ sent_app sent = false /\
+  (forall f, s_fatal st = Some f -> s_fatal st' = Some f).
+Proof.
+  intros st st' e sent H. unfold read_checked in H.
   destruct (read_record st) as [[st1 e1] sent1] eqn:Err.
   destruct (read_record_frame _ _ _ _ Err) as [Hc [Ho Hs]].
-  destruct e1.
-  { inv H. auto. }
+  pose proof (read_record_fatal _ _ _ _ Err) as Hf.
+  destruct e1 as [x|].
+  { inv H. nf_fields st1 (Some x). unfold same_ctl in *.
+    split; [intuition congruence|]. split; [intros Hn; specialize (Ho Hn); congruence|]. split; [exact Hs|].
+    intros f Hfa. apply note_fatal_keep. congruence. }
   destruct (s_hand st1).
-  - inv H. unfold send_alert, same_ctl in *. cbn. split; [tauto|]. split; [intros; discriminate|].
-    clear - Hs. induction sent1 as [|x l IH]; cbn in *.
-    + apply tx_no_app.
-    + destruct x; [discriminate | apply IH; exact Hs].
-  - inv H. auto.
+  - inv H.
+    nf_fields (set_in_err (fst (send_alert st1 100)) (Some (XLocal 100))) (Some (XLocal 100)).
+    unfold send_alert, same_ctl in *. cbn in *.
+    split; [intuition congruence|]. split; [intros _; congruence|]. split.
+    + clear - Hs. induction sent1 as [|x l IH]; cbn in *.
+      * apply tx_no_app.
+      * destruct x; [discriminate | apply IH; exact Hs].
+    + intros f Hfa. apply note_fatal_keep. cbn. congruence.
+  - inv H. split; [exact Hc|]. split; [exact Ho|]. split; [exact Hs|]. intros f Hfa. congruence.
 Qed.
 
-Lemma fill_err : forall st st' x sent,
-  fill st = (st', Some x, sent) -> x <> XBlock ->
-  s_in_err st' = Some x /\ (s_input st' = [] \/ x = XLocal 100).
+(* a latched read-half error comes straight back (and is noted) *)
+Lemma read_checked_latched : forall st x,
+  s_in_err st = Some x -> read_checked st = (note_fatal st (Some x), Some x, []).
+Proof. intros st x H. unfold read_checked. rewrite (read_record_latched _ _ H). reflexivity. Qed.
+
+(* an error: latched on the read half, noted on the connection *)
+Lemma read_checked_err : forall st st' x sent,
+  read_checked st = (st', Some x, sent) ->
+  (x <> XBlock -> s_in_err st' = Some x) /\
+  (s_input st' = s_input st \/ x = XLocal 100) /\
+  (s_fatal st = None -> s_fatal st' = fatal_class x) /\
+  (s_out_err st' = s_out_err st \/ alert_sent x).
 Proof.
-  intros st st' x sent H Hx. unfold fill in H.
-  destruct (s_input st) eqn:Ei; [|discriminate].
+  intros st st' x sent H. unfold read_checked in H.
   destruct (read_record st) as [[st1 e1] sent1] eqn:Err.
+  pose proof (read_record_fatal _ _ _ _ Err) as Hf.
   destruct e1 as [y|].
-  - inv H. destruct (read_record_err _ _ _ _ Err) as [Hin He]. split; [auto|]. left. congruence.
-  - destruct (s_hand st1); inv H. cbn. auto.
+  - inv H. destruct (read_record_err _ _ _ _ Err) as [Hin He].
+    nf_fields st1 (Some x).
+    split; [intros Hb; specialize (He Hb); congruence|]. split; [left; congruence|]. split.
+    + intros Hn. rewrite note_fatal_latch, Hf, Hn. reflexivity.
+    + destruct (read_record_out _ _ _ _ Err) as [Ho | [z [Hz Ha]]]; [left; congruence|]. inv Hz. right. exact Ha.
+  - destruct (s_hand st1); inv H.
+    nf_fields (set_in_err (fst (send_alert st1 100)) (Some (XLocal 100))) (Some (XLocal 100)).
+    cbn in *. split; [intros _; congruence|]. split; [right; reflexivity|]. split; [|right; exact I].
+    intros Hn. rewrite note_fatal_latch. cbn. rewrite Hf, Hn. reflexivity.
 Qed.
 
-Lemma fill_block : forall st st' sent,
-  fill st = (st', Some XBlock, sent) -> s_in_err st = None -> s_in_err st' = None.
+Lemma read_checked_block : forall st st' sent,
+  read_checked st = (st', Some XBlock, sent) -> s_in_err st = None -> s_in_err st' = None.
 Proof.
-  intros st st' sent H Hn. unfold fill in H.
-  destruct (s_input st) eqn:Ei; [|discriminate].
+  intros st st' sent H Hn. unfold read_checked in H.
   destruct (read_record st) as [[st1 e1] sent1] eqn:Err.
   destruct e1 as [y|].
-  - inv H. unfold read_record in Err. rewrite Hn in Err.
+  - inv H. nf_fields st1 (Some XBlock). cbn in *. unfold read_record in Err. rewrite Hn in Err.
     rr_cases st;
       repeat match goal with
              | H : context [match ?a with Some _ => _ | None => _ end] |- _ => destruct a
@@ -412,17 +524,64 @@ Proof.
   - destruct (s_hand st1); inv H.
 Qed.
 
+(* success: read_record succeeded and no handshake record is pending *)
+Lemma read_checked_ok : forall st st' sent,
+  read_checked st = (st', None, sent) ->
+  read_record st = (st', None, sent) /\ s_hand st' = false.
+Proof.
+  intros st st' sent H. unfold read_checked in H.
+  destruct (read_record st) as [[st1 e1] sent1] eqn:Err.
+  destruct e1; [discriminate|].
+  destruct (s_hand st1) eqn:Eh; inv H. auto.
+Qed.
+
+Lemma read_checked_wf : forall st st' e sent, read_checked st = (st', e, sent) -> wf st -> wf st'.
+Proof.
+  intros st st' e sent H Hwf. unfold read_checked in H.
+  destruct (read_record st) as [[st1 e1] sent1] eqn:Err.
+  pose proof (read_record_wf _ _ _ _ Err Hwf) as Hwf1.
+  destruct e1 as [x|].
+  { inv H. nf_fields st1 (Some x). eapply wf_same; [| |exact Hwf1]; assumption. }
+  destruct (s_hand st1); inv H; [|exact Hwf1].
+  nf_fields (set_in_err (fst (send_alert st1 100)) (Some (XLocal 100))) (Some (XLocal 100)).
+  unfold send_alert in *. cbn in *. split.
+  - intros x Hx. right. split; [|congruence]. assert (x = XLocal 100) by congruence. subst x. exact I.
+  - intros x Hx. left. exists 100%N. congruence.
+Qed.
+
+Lemma fill_frame : forall st st' e sent,
+  fill st = (st', e, sent) ->
+  same_ctl st st' /\ (s_out_err st <> None -> s_out_err st' <> None) /\ sent_app sent = false /\
+  (forall f, s_fatal st = Some f -> s_fatal st' = Some f).
+Proof.
+  intros st st' e sent H. unfold fill in H.
+  destruct (s_input st).
+  2:{ inv H. split; [apply same_ctl_refl|]. split; [tauto|]. split; [reflexivity|auto]. }
+  eapply read_checked_frame; eauto.
+Qed.
+
+Lemma fill_err : forall st st' x sent,
+  fill st = (st', Some x, sent) ->
+  s_input st = [] /\ read_checked st = (st', Some x, sent).
+Proof.
+  intros st st' x sent H. unfold fill in H.
+  destruct (s_input st) eqn:Ei; [|discriminate]. auto.
+Qed.
+
+Lemma fill_latched : forall st e, s_input st = [] -> s_in_err st = Some e ->
+  fill st = (note_fatal st (Some e), Some e, []).
+Proof. intros st e Hi He. unfold fill. rewrite Hi. apply read_checked_latched. exact He. Qed.
+
 Lemma fill_ok : forall st st' sent,
   fill st = (st', None, sent) ->
-  s_in_err st' = s_in_err st /\ (s_input st <> [] -> st' = st).
+  s_in_err st' = s_in_err st /\ s_fatal st' = s_fatal st /\ (s_input st <> [] -> st' = st).
 Proof.
   intros st st' sent H. unfold fill in H.
   destruct (s_input st) eqn:Ei.
-  - destruct (read_record st) as [[st1 e1] sent1] eqn:Err.
-    destruct e1; [discriminate|].
-    destruct (read_record_ok _ _ _ Err) as [H0 H1].
-    destruct (s_hand st1); inv H. split; [congruence|]. intros C. contradiction.
-  - inv H. split; [reflexivity|]. auto.
+  - destruct (read_checked_ok _ _ _ H) as [Hr _].
+    destruct (read_record_ok _ _ _ Hr) as [H0 H1].
+    split; [congruence|]. split; [eapply read_record_fatal; eauto|]. intros C. contradiction.
+  - inv H. auto.
 Qed.
 
 Lemma fill_wf : forall st st' e sent, fill st = (st', e, sent) -> wf st -> wf st'.
@@ -430,13 +589,7 @@ Proof.
   intros st st' e sent H Hwf. unfold fill in H.
   destruct (s_input st).
   2:{ inv H. exact Hwf. }
-  destruct (read_record st) as [[st1 e1] sent1] eqn:Err.
-  pose proof (read_record_wf _ _ _ _ Err Hwf) as Hwf1.
-  destruct e1; [inv H; exact Hwf1|].
-  destruct (s_hand st1); inv H; [|exact Hwf1].
-  unfold send_alert. split; cbn.
-  - intros x Hx. inv Hx. right. split; [exact I|discriminate].
-  - intros x Hx. inv Hx. eauto.
+  eapply read_checked_wf; eauto.
 Qed.
 
 Lemma close_notify_spec : forall st st' e sent,
@@ -452,6 +605,13 @@ Proof.
   - inv H. cbn. repeat split; auto. apply tx_no_app.
 Qed.
 
+Lemma close_notify_fatal : forall st st' e sent,
+  close_notify st = (st', e, sent) -> s_fatal st' = s_fatal st.
+Proof.
+  intros st st' e sent H. unfold close_notify in H.
+  destruct (s_cns st); inv H; reflexivity.
+Qed.
+
 (* ------------------------------------------------------------------ *)
 (* monotone facts of one step                                          *)
 (* ------------------------------------------------------------------ *)
@@ -465,16 +625,20 @@ Lemma do_read_unfold : forall st n st0 he sent0,
   | Some e => (st0, fail e sent0)
   | None =>
       if Nat.eqb n 0 then (st0, mkO None 0 [] sent0) else
-      let '(st1, fe, sent1) := fill st0 in
-      match fe with
-      | Some e => (st1, fail e (sent0 ++ sent1))
+      match s_fatal st0 with
+      | Some e => (st0, fail e sent0)
       | None =>
-          let d := firstn n (s_input st1) in
-          let st2 := set_input st1 (skipn n (s_input st1)) in
-          if negb (Nat.eqb (length d) 0) && Nat.eqb (length (s_input st2)) 0 && raw_head_is_alert st2 then
-            let '(st3, pe, sent3) := read_record st2 in
-            (st3, mkO pe 0 d (sent0 ++ sent1 ++ sent3))
-          else (st2, mkO None 0 d (sent0 ++ sent1))
+          let '(st1, fe, sent1) := fill st0 in
+          match fe with
+          | Some e => (st1, fail e (sent0 ++ sent1))
+          | None =>
+              let d := firstn n (s_input st1) in
+              let st2 := set_input st1 (skipn n (s_input st1)) in
+              if negb (Nat.eqb (length d) 0) && Nat.eqb (length (s_input st2)) 0 && raw_head_is_alert st2 then
+                let '(st3, pe, sent3) := read_checked st2 in
+                (st3, mkO pe 0 d (sent0 ++ sent1 ++ sent3))
+              else (st2, mkO None 0 d (sent0 ++ sent1))
+          end
       end
   end.
 Proof. intros st n st0 he sent0 Hc Hh. unfold do_read. rewrite Hc, Hh. reflexivity. Qed.
@@ -485,7 +649,8 @@ Lemma do_read_frame : forall st n,
   s_plan st' = s_plan st /\ s_cns st' = s_cns st /\ s_cn_err st' = s_cn_err st /\ s_closed st' = s_closed st /\
   s_ended st' = s_ended st /\ s_peergone st' = s_peergone st /\
   (s_out_err st <> None -> s_out_err st' <> None) /\
-  (s_hs st <> HNotRun -> s_hs st' = s_hs st /\ s_rawclosed st' = s_rawclosed st).
+  (s_hs st <> HNotRun -> s_hs st' = s_hs st /\ s_rawclosed st' = s_rawclosed st) /\
+  (forall f, s_fatal st = Some f -> s_fatal st' = Some f).
 Proof.
   intros st n. cbv zeta.
   destruct (s_closed st) eqn:Ec.
@@ -493,34 +658,39 @@ Proof.
   destruct (handshake st None) as [[st0 he] sent0] eqn:Eh.
   rewrite (do_read_unfold _ n _ _ _ Ec Eh).
   destruct (handshake_sum _ _ _ _ _ Eh) as [Hio [Hres Hsame]].
-  unfold same_io in Hio. destruct Hio as [? [? [Ho [? [? [? [? [? [? ?]]]]]]]]].
+  unfold same_io in Hio. destruct Hio as [? [? [Ho [? [? [? [? [? [? [? Hfa0]]]]]]]]]].
   assert (Hbase : s_hs st <> HNotRun -> s_hs st0 = s_hs st /\ s_rawclosed st0 = s_rawclosed st).
   { intros Hn. destruct (Hsame Hn) as [-> _]. auto. }
   assert (Hfin : forall s, s_plan s = s_plan st0 -> s_cns s = s_cns st0 -> s_cn_err s = s_cn_err st0 ->
             s_closed s = s_closed st0 -> s_ended s = s_ended st0 -> s_peergone s = s_peergone st0 ->
             (s_out_err st0 <> None -> s_out_err s <> None) -> s_hs s = s_hs st0 -> s_rawclosed s = s_rawclosed st0 ->
+            (forall f, s_fatal st0 = Some f -> s_fatal s = Some f) ->
             s_plan s = s_plan st /\ s_cns s = s_cns st /\ s_cn_err s = s_cn_err st /\ s_closed s = false /\
             s_ended s = s_ended st /\ s_peergone s = s_peergone st /\
             (s_out_err st <> None -> s_out_err s <> None) /\
-            (s_hs st <> HNotRun -> s_hs s = s_hs st /\ s_rawclosed s = s_rawclosed st)).
-  { intros s ? ? ? ? ? ? Hos ? ?. rewrite Ho in Hos. repeat split; try congruence; auto;
+            (s_hs st <> HNotRun -> s_hs s = s_hs st /\ s_rawclosed s = s_rawclosed st) /\
+            (forall f, s_fatal st = Some f -> s_fatal s = Some f)).
+  { intros s ? ? ? ? ? ? Hos ? ? Hfs. rewrite Ho in Hos. rewrite Hfa0 in Hfs.
+    repeat split; try congruence; auto;
       match goal with Hn : s_hs st <> HNotRun |- _ => destruct (Hbase Hn); congruence end. }
   destruct he as [e|].
   { cbn [fst]. apply Hfin; auto. }
   destruct (Nat.eqb n 0).
   { cbn [fst]. apply Hfin; auto. }
+  destruct (s_fatal st0) eqn:Efa.
+  { cbn [fst]. apply Hfin; auto. intros; congruence. }
   destruct (fill st0) as [[st1 fe] sent1] eqn:Ef.
   destruct (fill_frame _ _ _ _ Ef) as [Hc1 [Ho1 _]]. unfold same_ctl in Hc1.
   destruct Hc1 as [? [Hh1 [? [? [? [Hr1 [? ?]]]]]]].
   destruct fe as [e|].
-  { cbn [fst]. apply Hfin; auto. }
+  { cbn [fst]. apply Hfin; auto. intros; discriminate. }
   cbv zeta.
   match goal with |- context [if ?b then _ else _] => destruct b end.
-  - destruct (read_record (set_input st1 (skipn n (s_input st1)))) as [[st3 pe] sent3] eqn:Er.
-    destruct (read_record_frame _ _ _ _ Er) as [Hc3 [Ho3 _]]. unfold same_ctl in Hc3. cbn in Hc3, Ho3.
+  - destruct (read_checked (set_input st1 (skipn n (s_input st1)))) as [[st3 pe] sent3] eqn:Er.
+    destruct (read_checked_frame _ _ _ _ Er) as [Hc3 [Ho3 _]]. unfold same_ctl in Hc3. cbn in Hc3, Ho3.
     destruct Hc3 as [? [Hh3 [? [? [? [Hr3 [? ?]]]]]]].
-    cbn [fst]. apply Hfin; try congruence. auto.
-  - cbn [fst]. apply Hfin; cbn; auto.
+    cbn [fst]. apply Hfin; try congruence; auto; intros; discriminate.
+  - cbn [fst]. apply Hfin; cbn; auto. intros; discriminate.
 Qed.
 
 Definition mono (st st' : state) : Prop :=
@@ -530,7 +700,8 @@ Definition mono (st st' : state) : Prop :=
   (s_out_err st <> None -> s_out_err st' <> None) /\
   (s_hs st <> HNotRun -> s_hs st' = s_hs st) /\
   (s_rawclosed st = true -> s_rawclosed st' = true) /\
-  (s_ended st = true -> s_ended st' = true).
+  (s_ended st = true -> s_ended st' = true) /\
+  (forall f, s_fatal st = Some f -> s_fatal st' = Some f).
 
 Lemma do_write_cases : forall st bs,
   (s_closed st = true /\ do_write st bs = (st, fail XClosed []))
@@ -541,12 +712,17 @@ Lemma do_write_cases : forall st bs,
           match s_out_err st0 with
           | Some e => do_write st bs = (st0, fail e sent0)
           | None =>
-              if s_cns st0 then do_write st bs = (st0, fail XShutdown sent0)
-              else match bs with
-                   | [] => do_write st bs = (st0, mkO None 0 [] sent0)
-                   | _ => if tx_dead st0 then do_write st bs = (set_out_err st0 (Some XClosed), fail XClosed sent0)
-                          else do_write st bs = (st0, mkO None (length bs) [] (sent0 ++ [SApp bs]))
-                   end
+              match s_fatal st0 with
+              | Some e => do_write st bs = (st0, fail e sent0)
+              | None =>
+                  if s_cns st0 then do_write st bs = (st0, fail XShutdown sent0)
+                  else match bs with
+                       | [] => do_write st bs = (st0, mkO None 0 [] sent0)
+                       | _ => if tx_dead st0
+                              then do_write st bs = (set_fatal (set_out_err st0 (Some XClosed)) (Some XClosed), fail XClosed sent0)
+                              else do_write st bs = (st0, mkO None (length bs) [] (sent0 ++ [SApp bs]))
+                       end
+              end
           end
       end).
 Proof.
@@ -555,16 +731,18 @@ Proof.
   destruct (handshake st None) as [[st0 he] sent0] eqn:Eh. exists st0, he, sent0. split; [reflexivity|].
   destruct he; [reflexivity|].
   destruct (s_out_err st0); [reflexivity|].
+  destruct (s_fatal st0) eqn:Efa; [reflexivity|].
   destruct (s_cns st0); [reflexivity|].
   destruct bs; [reflexivity|].
-  destruct (tx_dead st0); reflexivity.
+  destruct (tx_dead st0); [|reflexivity].
+  f_equal. apply note_fatal_first; [exact Efa|reflexivity].
 Qed.
 
 Lemma handshake_mono : forall st k st' e sent, handshake st k = (st', e, sent) -> mono st st'.
 Proof.
   intros st k st' e sent H.
   destruct (handshake_sum _ _ _ _ _ H) as [Hio [Hres Hsame]].
-  unfold same_io in Hio. destruct Hio as [? [? [Ho [? [? [? [? [? [? ?]]]]]]]]].
+  unfold same_io in Hio. destruct Hio as [? [? [Ho [? [? [? [? [? [? [? ?]]]]]]]]]].
   unfold mono. repeat split; try congruence.
   - intros Hn. destruct (Hsame Hn) as [-> _]. reflexivity.
   - intros Hr. destruct e as [x|].
@@ -577,7 +755,7 @@ Proof. intros. unfold mono. tauto. Qed.
 
 Lemma mono_trans : forall a b c, mono a b -> mono b c -> mono a c.
 Proof.
-  unfold mono. intros a b c [? [? [? [? [Hh1 [? ?]]]]]] [? [? [? [? [Hh2 [? ?]]]]]].
+  unfold mono. intros a b c [? [? [? [? [Hh1 [? [? ?]]]]]]] [? [? [? [? [Hh2 [? [? ?]]]]]]].
   repeat split; try congruence; auto.
   intros Hn. rewrite Hh2; [auto|]. rewrite (Hh1 Hn). exact Hn.
 Qed.
@@ -587,7 +765,7 @@ Proof.
   intros st c. step_cases c; cbn [step].
   - (* Read *)
     pose proof (do_read_frame st n) as H. cbv zeta in H.
-    destruct H as [? [Hc [? [Hcl [He [Hpg [Ho Hh]]]]]]].
+    destruct H as [? [Hc [? [Hcl [He [Hpg [Ho [Hh Hfa]]]]]]]].
     unfold mono. repeat split; try congruence; auto.
     + intros Hn. apply (Hh Hn).
     + intros Hr. destruct (s_hs st) eqn:Ehs.
@@ -600,12 +778,13 @@ Proof.
         specialize (Hrc Hr).
         destruct he; [exact Hrc|].
         destruct (Nat.eqb n 0); [exact Hrc|].
+        destruct (s_fatal st0); [exact Hrc|].
         destruct (fill st0) as [[st1 fe] sent1] eqn:Ef.
         destruct (fill_frame _ _ _ _ Ef) as [[_ [_ [_ [_ [_ [Hr1 _]]]]]] _].
         destruct fe; [cbn; congruence|]. cbv zeta.
         match goal with |- context [if ?b then _ else _] => destruct b end.
-        -- destruct (read_record (set_input st1 (skipn n (s_input st1)))) as [[st3 pe] sent3] eqn:Er.
-           destruct (read_record_frame _ _ _ _ Er) as [[_ [_ [_ [_ [_ [Hr3 _]]]]]] _]. cbn in Hr3. cbn. congruence.
+        -- destruct (read_checked (set_input st1 (skipn n (s_input st1)))) as [[st3 pe] sent3] eqn:Er.
+           destruct (read_checked_frame _ _ _ _ Er) as [[_ [_ [_ [_ [_ [Hr3 _]]]]]] _]. cbn in Hr3. cbn. congruence.
         -- cbn. congruence.
       * destruct Hh as [_ Hh]; [congruence|]. congruence.
       * destruct Hh as [_ Hh]; [congruence|]. congruence.
@@ -614,23 +793,25 @@ Proof.
     pose proof (handshake_mono _ _ _ _ _ Eh) as Hm.
     destruct he; [rewrite Hw; exact Hm|].
     destruct (s_out_err st0) eqn:Eo; [rewrite Hw; exact Hm|].
+    destruct (s_fatal st0) eqn:Efa; [rewrite Hw; exact Hm|].
     destruct (s_cns st0); [rewrite Hw; exact Hm|].
     destruct bs; [rewrite Hw; exact Hm|].
     destruct (tx_dead st0); rewrite Hw; [|exact Hm].
-    eapply mono_trans; [exact Hm|]. unfold mono. cbn. repeat split; auto; try (intros; discriminate).
+    eapply mono_trans; [exact Hm|]. unfold mono. cbn. repeat split; auto; try (intros; discriminate). intros; congruence.
   - (* CloseWrite *)
     unfold do_closewrite. destruct (s_hs st) eqn:Eh; try apply mono_refl.
     destruct (close_notify st) as [[st1 e] sent] eqn:Ec.
-    pose proof (close_notify_spec _ _ _ _ Ec) as H. cbn [fst].
+    pose proof (close_notify_spec _ _ _ _ Ec) as H. pose proof (close_notify_fatal _ _ _ _ Ec) as Hfa. cbn [fst].
     unfold mono. repeat split; intros; try (destruct H as (?&?&?&?&?&?&?&?&?&?&?&?&?&?&?); congruence).
   - (* Close *)
     unfold do_close. destruct (s_closed st) eqn:Ec; [apply mono_refl|].
     destruct (s_hs (set_closed st true)) eqn:Eh.
     + cbn. unfold mono. cbn. repeat split; auto.
     + destruct (close_notify (set_closed st true)) as [[st1 e] sent] eqn:Ecn.
-      pose proof (close_notify_spec _ _ _ _ Ecn) as H. cbn in H. cbn [fst].
+      pose proof (close_notify_spec _ _ _ _ Ecn) as H. pose proof (close_notify_fatal _ _ _ _ Ecn) as Hfa.
+      cbn in H, Hfa. cbn [fst].
       destruct H as (?&?&?&?&?&?&?&?&?&?&?&?&?&?&?).
-      unfold mono. cbn. repeat split; intros; try congruence. 
+      unfold mono. cbn. repeat split; intros; try congruence.
     + cbn. unfold mono. cbn. repeat split; auto.
   - (* Handshake *)
     unfold do_handshake. destruct (handshake st k) as [[st1 e] sent] eqn:Eh. cbn [fst].
@@ -748,106 +929,7 @@ Proof.
   - intros s c Hs. pose proof (failed_calls s c e' Hs) as H. destruct c; auto.
 Qed.
 
-(* --- an error returned by Read stays on the read side --- *)
-Definition read_dead (e : eclass) (st : state) : Prop :=
-  s_closed st = true \/ s_hs st = HFailed e \/
-  (s_hs st = HDone /\ s_in_err st = Some e /\ s_input st = []).
-
-Lemma fill_latched : forall st e, s_input st = [] -> s_in_err st = Some e -> fill st = (st, Some e, []).
-Proof. intros st e Hi He. unfold fill. rewrite Hi, (read_record_latched _ _ He). reflexivity. Qed.
-
-Lemma read_error_state : forall st n e,
-  o_err (snd (do_read st n)) = Some e -> e <> XBlock -> e <> XLocal 100 ->
-  read_dead e (fst (do_read st n)).
-Proof.
-  intros st n e He Hb H100.
-  destruct (s_closed st) eqn:Ec.
-  { unfold do_read in *. rewrite Ec in *. left. exact Ec. }
-  destruct (handshake st None) as [[st0 he] sent0] eqn:Eh.
-  rewrite (do_read_unfold _ n _ _ _ Ec Eh) in *.
-  destruct (handshake_sum _ _ _ _ _ Eh) as [_ [Hres _]].
-  destruct he as [x|].
-  { cbn in He. inv He. cbn [fst]. destruct Hres as [[-> _] | [[Hf _] | [_ [_ [_ [C _]]]]]]; [contradiction | | contradiction].
-    right; left. exact Hf. }
-  destruct Hres as [Hd _].
-  destruct (Nat.eqb n 0); [cbn in He; discriminate|].
-  destruct (fill st0) as [[st1 fe] sent1] eqn:Ef.
-  destruct (fill_frame _ _ _ _ Ef) as [[_ [Hh1 _]] _].
-  destruct fe as [x|].
-  { cbn in He. inv He. cbn [fst]. destruct (fill_err _ _ _ _ Ef Hb) as [Hin [Hi | C]]; [|contradiction].
-    right; right. repeat split; congruence. }
-  cbv zeta in *.
-  match goal with |- context [if ?b then _ else _] => destruct b eqn:Econd end.
-  - destruct (read_record (set_input st1 (skipn n (s_input st1)))) as [[st3 pe] sent3] eqn:Er.
-    cbn in He. subst pe. cbn [fst].
-    destruct (read_record_frame _ _ _ _ Er) as [[_ [Hh3 _]] _]. cbn in Hh3.
-    destruct (read_record_err _ _ _ _ Er) as [Hi3 Hin3]. cbn in Hi3.
-    apply andb_prop in Econd. destruct Econd as [Econd _]. apply andb_prop in Econd. destruct Econd as [_ El].
-    cbn in El. apply Nat.eqb_eq in El. apply length_zero_iff_nil in El.
-    right; right. repeat split; try congruence. apply Hin3. exact Hb.
-  - cbn in He. discriminate.
-Qed.
-
-Lemma read_dead_keep : forall e st c, read_dead e st -> read_dead e (fst (step st c)).
-Proof.
-  intros e st c [Hc | [Hf | [Hd [Hin Hi]]]].
-  - left. apply (step_mono st c). exact Hc.
-  - right; left. destruct (step_mono st c) as [_ [_ [_ [_ [Hh _]]]]]. rewrite Hh; [exact Hf|congruence].
-  - step_cases c; cbn [step].
-    + unfold do_read. destruct (s_closed st) eqn:Ec; [left; exact Ec|].
-      rewrite (handshake_done _ _ Hd).
-      destruct (Nat.eqb n 0); [right; right; auto|].
-      rewrite (fill_latched _ _ Hi Hin). right; right; auto.
-    + destruct (do_write_cases st bs) as [[Hc ->] | [Hc [st0 [he [sent0 [Eh Hw]]]]]]; [left; exact Hc|].
-      rewrite (handshake_done _ _ Hd) in Eh. inv Eh.
-      destruct (s_out_err st0); [rewrite Hw; right; right; auto|].
-      destruct (s_cns st0); [rewrite Hw; right; right; auto|].
-      destruct bs; [rewrite Hw; right; right; auto|].
-      destruct (tx_dead st0); rewrite Hw; right; right; auto.
-    + unfold do_closewrite. rewrite Hd.
-      destruct (close_notify st) as [[st1 x] sent] eqn:Ecn.
-      pose proof (close_notify_spec _ _ _ _ Ecn) as H. destruct H as (?&?&?&?&?&?&?&?&?).
-      right; right. cbn. repeat split; congruence.
-    + left. apply close_sets_closed.
-    + unfold do_handshake. rewrite (handshake_done _ _ Hd). right; right; auto.
-    + destruct (s_ended st); right; right; auto.
-    + destruct (s_ended st); right; right; auto.
-    + destruct (s_ended st); right; right; auto.
-Qed.
-
-Lemma read_dead_read : forall e st n, read_dead e st -> n <> 0 ->
-  (o_err (snd (do_read st n)) = Some e \/ o_err (snd (do_read st n)) = Some XClosed) /\
-  o_data (snd (do_read st n)) = [] /\ o_sent (snd (do_read st n)) = [].
-Proof.
-  intros e st n [Hc | [Hf | [Hd [Hin Hi]]]] Hn.
-  - unfold do_read. rewrite Hc. cbn. auto.
-  - unfold do_read. destruct (s_closed st); [cbn; auto|]. rewrite (handshake_failed _ _ _ Hf). cbn. auto.
-  - unfold do_read. destruct (s_closed st); [cbn; auto|]. rewrite (handshake_done _ _ Hd).
-    destruct (Nat.eqb n 0) eqn:E0; [apply Nat.eqb_eq in E0; contradiction|].
-    rewrite (fill_latched _ _ Hi Hin). cbn. auto.
-Qed.
-
-Theorem sticky_read_error : forall pl h i j n e m oi oj,
-  i < j -> nth_error h i = Some (CRead n) -> nth_error (run (init pl) h) i = Some oi ->
-  o_err oi = Some e -> e <> XBlock -> e <> XLocal 100 ->
-  nth_error h j = Some (CRead m) -> m <> 0 -> nth_error (run (init pl) h) j = Some oj ->
-  (o_err oj = Some e \/ o_err oj = Some XClosed) /\ o_data oj = [] /\ o_sent oj = [].
-Proof.
-  intros pl h i j n e m oi oj Hij Hi Hoi He Hb H100 Hj Hm Hoj.
-  rewrite (run_nth _ _ _ _ Hi) in Hoi. inv Hoi. cbn [step] in He.
-  pose proof (read_error_state _ _ _ He Hb H100) as HP.
-  eapply (later_call (read_dead e)
-            (fun c o => match c with
-                        | CRead m => m <> 0 -> (o_err o = Some e \/ o_err o = Some XClosed) /\ o_data o = [] /\ o_sent o = []
-                        | _ => True end) h (init pl) i j (CRead n) (CRead m) oj); eauto.
-  - intros s c Hs. apply read_dead_keep. exact Hs.
-  - intros s c Hs. destruct c; auto. intros Hm0. cbn [step]. apply read_dead_read; auto.
-Qed.
-
 (* --- reachable states are well-formed --- *)
-Lemma wf_same : forall a b, s_in_err b = s_in_err a -> s_out_err b = s_out_err a -> wf a -> wf b.
-Proof. intros a b Hi Ho [H1 H2]. split; [rewrite Hi, Ho | rewrite Ho]; assumption. Qed.
-
 Lemma handshake_wf : forall st k st' e sent, handshake st k = (st', e, sent) -> wf st -> wf st'.
 Proof.
   intros st k st' e sent H Hwf. destruct (handshake_sum _ _ _ _ _ H) as [Hio _].
@@ -864,17 +946,19 @@ Proof.
     pose proof (handshake_wf _ _ _ _ _ Eh Hwf) as Hwf0.
     destruct he; [exact Hwf0|].
     destruct (Nat.eqb n 0); [exact Hwf0|].
+    destruct (s_fatal st0); [exact Hwf0|].
     destruct (fill st0) as [[st1 fe] sent1] eqn:Ef.
     pose proof (fill_wf _ _ _ _ Ef Hwf0) as Hwf1.
     destruct fe; [exact Hwf1|]. cbv zeta.
     match goal with |- context [if ?b then _ else _] => destruct b end.
-    + destruct (read_record (set_input st1 (skipn n (s_input st1)))) as [[st3 pe] sent3] eqn:Er.
-      cbn [fst]. eapply read_record_wf; [exact Er|]. eapply wf_same; [| |exact Hwf1]; reflexivity.
+    + destruct (read_checked (set_input st1 (skipn n (s_input st1)))) as [[st3 pe] sent3] eqn:Er.
+      cbn [fst]. eapply read_checked_wf; [exact Er|]. eapply wf_same; [| |exact Hwf1]; reflexivity.
     + cbn [fst]. eapply wf_same; [| |exact Hwf1]; reflexivity.
   - destruct (do_write_cases st bs) as [[Hc ->] | [Hc [st0 [he [sent0 [Eh Hw]]]]]]; [exact Hwf|].
     pose proof (handshake_wf _ _ _ _ _ Eh Hwf) as Hwf0.
     destruct he; [rewrite Hw; exact Hwf0|].
     destruct (s_out_err st0) eqn:Eo; [rewrite Hw; exact Hwf0|].
+    destruct (s_fatal st0); [rewrite Hw; exact Hwf0|].
     destruct (s_cns st0); [rewrite Hw; exact Hwf0|].
     destruct bs; [rewrite Hw; exact Hwf0|].
     destruct (tx_dead st0); rewrite Hw; [|exact Hwf0].
@@ -905,33 +989,263 @@ Proof. intros pl. split; intros e He; cbn in He; discriminate. Qed.
 Lemma exec_wf : forall pl h, wf (exec (init pl) h).
 Proof. intros pl h. apply exec_inv; [intros; apply step_wf; assumption | apply init_wf]. Qed.
 
-(* --- the write side --- *)
+(* --- the connection-wide latch covers the write half: whenever the write half holds an error
+       (an alert this endpoint sent, a failed transport write) a fatal error is recorded --- *)
+Definition latched (st : state) : Prop := s_out_err st <> None -> s_fatal st <> None.
+
+Lemma latched_same : forall a b, s_out_err b = s_out_err a -> s_fatal b = s_fatal a -> latched a -> latched b.
+Proof. intros a b Ho Hf H. unfold latched in *. rewrite Ho, Hf. exact H. Qed.
+
+Lemma alert_sent_fatal : forall x, alert_sent x -> fatal_class x = Some x.
+Proof. intros x H. destruct x; try contradiction; reflexivity. Qed.
+
+Lemma read_checked_keeps_latched : forall st st' e sent,
+  read_checked st = (st', e, sent) -> latched st -> latched st'.
+Proof.
+  intros st st' e sent H HL.
+  destruct (read_checked_frame _ _ _ _ H) as [_ [_ [_ Hkeep]]].
+  destruct e as [x|].
+  - destruct (read_checked_err _ _ _ _ H) as [_ [_ [Hfa Ho]]].
+    destruct (s_fatal st) as [f|] eqn:Ef.
+    { intros _. rewrite (Hkeep f eq_refl). discriminate. }
+    specialize (Hfa eq_refl).
+    destruct Ho as [Ho | Ha].
+    + intros Hn. rewrite Ho in Hn. specialize (HL Hn). congruence.
+    + intros _. rewrite Hfa, (alert_sent_fatal _ Ha). discriminate.
+  - destruct (read_checked_ok _ _ _ H) as [Hr _].
+    pose proof (read_record_fatal _ _ _ _ Hr) as Hf.
+    destruct (read_record_out _ _ _ _ Hr) as [Ho | [z [C _]]]; [|discriminate].
+    eapply latched_same; eauto.
+Qed.
+
+Lemma handshake_latched : forall st k st' e sent, handshake st k = (st', e, sent) -> latched st -> latched st'.
+Proof.
+  intros st k st' e sent H HL. destruct (handshake_sum _ _ _ _ _ H) as [Hio _].
+  unfold same_io in Hio. destruct Hio as [? [? [? [? [? [? [? [? [? [? ?]]]]]]]]]]. eapply latched_same; eauto.
+Qed.
+
+Lemma step_latched : forall st c, latched st -> latched (fst (step st c)).
+Proof.
+  intros st c HL. step_cases c; cbn [step].
+  - destruct (s_closed st) eqn:Ec.
+    { unfold do_read. rewrite Ec. exact HL. }
+    destruct (handshake st None) as [[st0 he] sent0] eqn:Eh.
+    rewrite (do_read_unfold _ n _ _ _ Ec Eh).
+    pose proof (handshake_latched _ _ _ _ _ Eh HL) as HL0.
+    destruct he; [exact HL0|].
+    destruct (Nat.eqb n 0); [exact HL0|].
+    destruct (s_fatal st0); [exact HL0|].
+    assert (HL1 : forall st1 fe sent1, fill st0 = (st1, fe, sent1) -> latched st1).
+    { intros st1 fe sent1 Ef. unfold fill in Ef. destruct (s_input st0).
+      - eapply read_checked_keeps_latched; eauto.
+      - inv Ef. exact HL0. }
+    destruct (fill st0) as [[st1 fe] sent1] eqn:Ef. specialize (HL1 _ _ _ eq_refl).
+    destruct fe; [exact HL1|]. cbv zeta.
+    match goal with |- context [if ?b then _ else _] => destruct b end.
+    + destruct (read_checked (set_input st1 (skipn n (s_input st1)))) as [[st3 pe] sent3] eqn:Er.
+      cbn [fst]. eapply read_checked_keeps_latched; [exact Er|]. eapply latched_same; [| |exact HL1]; reflexivity.
+    + cbn [fst]. eapply latched_same; [| |exact HL1]; reflexivity.
+  - destruct (do_write_cases st bs) as [[Hc ->] | [Hc [st0 [he [sent0 [Eh Hw]]]]]]; [exact HL|].
+    pose proof (handshake_latched _ _ _ _ _ Eh HL) as HL0.
+    destruct he; [rewrite Hw; exact HL0|].
+    destruct (s_out_err st0) eqn:Eo; [rewrite Hw; exact HL0|].
+    destruct (s_fatal st0); [rewrite Hw; exact HL0|].
+    destruct (s_cns st0); [rewrite Hw; exact HL0|].
+    destruct bs; [rewrite Hw; exact HL0|].
+    destruct (tx_dead st0); rewrite Hw; [|exact HL0].
+    cbn [fst]. intros _. cbn. discriminate.
+  - unfold do_closewrite. destruct (s_hs st); try exact HL.
+    destruct (close_notify st) as [[st1 e] sent] eqn:Ec.
+    pose proof (close_notify_spec _ _ _ _ Ec) as H. destruct H as (?&?&?&?&?&?).
+    pose proof (close_notify_fatal _ _ _ _ Ec).
+    cbn [fst]. eapply latched_same; eauto.
+  - unfold do_close. destruct (s_closed st); [exact HL|].
+    destruct (s_hs (set_closed st true)).
+    + cbn [fst]. eapply latched_same; [| |exact HL]; reflexivity.
+    + destruct (close_notify (set_closed st true)) as [[st1 e] sent] eqn:Ecn.
+      pose proof (close_notify_spec _ _ _ _ Ecn) as H. cbn in H. destruct H as (?&?&?&?&?&?).
+      pose proof (close_notify_fatal _ _ _ _ Ecn) as Hf. cbn in Hf.
+      cbn [fst]. eapply latched_same; [| |exact HL]; cbn; congruence.
+    + cbn [fst]. eapply latched_same; [| |exact HL]; reflexivity.
+  - unfold do_handshake. destruct (handshake st k) as [[st1 e] sent] eqn:Eh. cbn [fst].
+    eapply handshake_latched; eauto.
+  - destruct (s_ended st); [exact HL|]. eapply latched_same; [| |exact HL]; reflexivity.
+  - destruct (s_ended st); [exact HL|]. eapply latched_same; [| |exact HL]; reflexivity.
+  - destruct (s_ended st); eapply latched_same; try exact HL; reflexivity.
+Qed.
+
+Lemma exec_latched : forall pl h, latched (exec (init pl) h).
+Proof.
+  intros pl h. apply exec_inv; [intros; apply step_latched; assumption|].
+  intros C. cbn in C. contradiction.
+Qed.
+
+(* --- an error returned by Read stays --- *)
+(* after a Read returned e: the connection is closed, the handshake failed with e, e is the
+   connection's fatal error, or e is latched on the read half with nothing buffered (this is
+   where end-of-stream lives: it is not fatal; a failing transport write may still make the
+   connection's fatal error "closed") *)
+Definition read_dead (e : eclass) (st : state) : Prop :=
+  s_closed st = true \/ s_hs st = HFailed e \/
+  (s_hs st = HDone /\
+   (s_fatal st = Some e \/
+    (s_in_err st = Some e /\ s_input st = [] /\
+     ((s_fatal st = None /\ fatal_class e = None) \/ s_fatal st = Some XClosed)))).
+
+Lemma fatal_class_cases : forall x, fatal_class x = Some x \/ (fatal_class x = None /\ x <> XLocal 100).
+Proof. intros x. destruct x; cbn; auto; right; split; auto; discriminate. Qed.
+
+(* an error of read_checked on a state with nothing buffered and nothing recorded *)
+Lemma read_checked_dead : forall st st' x sent,
+  read_checked st = (st', Some x, sent) -> x <> XBlock -> s_input st = [] -> s_fatal st = None ->
+  s_fatal st' = Some x \/ (s_in_err st' = Some x /\ s_input st' = [] /\ s_fatal st' = None /\ fatal_class x = None).
+Proof.
+  intros st st' x sent H Hb Hi Hf.
+  destruct (read_checked_err _ _ _ _ H) as [Hin [Hinp [Hfa _]]].
+  specialize (Hfa Hf). specialize (Hin Hb).
+  destruct (fatal_class_cases x) as [Hs | [Hn Hx]].
+  - left. congruence.
+  - right. destruct Hinp as [Hinp | C]; [|contradiction]. repeat split; congruence.
+Qed.
+
+Lemma read_error_state : forall st n e,
+  o_err (snd (do_read st n)) = Some e -> e <> XBlock ->
+  read_dead e (fst (do_read st n)).
+Proof.
+  intros st n e He Hb.
+  destruct (s_closed st) eqn:Ec.
+  { unfold do_read in *. rewrite Ec in *. left. exact Ec. }
+  destruct (handshake st None) as [[st0 he] sent0] eqn:Eh.
+  rewrite (do_read_unfold _ n _ _ _ Ec Eh) in *.
+  destruct (handshake_sum _ _ _ _ _ Eh) as [_ [Hres _]].
+  destruct he as [x|].
+  { cbn in He. inv He. cbn [fst]. destruct Hres as [[-> _] | [[Hf _] | [_ [_ [_ [C _]]]]]]; [contradiction | | contradiction].
+    right; left. exact Hf. }
+  destruct Hres as [Hd _].
+  destruct (Nat.eqb n 0); [cbn in He; discriminate|].
+  destruct (s_fatal st0) as [f|] eqn:Efa.
+  { cbn in He. inv He. cbn [fst]. right; right. auto. }
+  destruct (fill st0) as [[st1 fe] sent1] eqn:Ef.
+  destruct (fill_frame _ _ _ _ Ef) as [[_ [Hh1 _]] _].
+  destruct fe as [x|].
+  { cbn in He. inv He. cbn [fst]. destruct (fill_err _ _ _ _ Ef) as [Hi0 Hrc].
+    right; right. split; [congruence|].
+    destruct (read_checked_dead _ _ _ _ Hrc Hb Hi0 Efa) as [Hs | [Hin [Hi [Hfn Hcl]]]]; auto 6. }
+  cbv zeta in *.
+  destruct (fill_ok _ _ _ Ef) as [_ [Hfa1 _]].
+  match goal with |- context [if ?b then _ else _] => destruct b eqn:Econd end.
+  - destruct (read_checked (set_input st1 (skipn n (s_input st1)))) as [[st3 pe] sent3] eqn:Er.
+    cbn in He. subst pe. cbn [fst].
+    destruct (read_checked_frame _ _ _ _ Er) as [[_ [Hh3 _]] _]. cbn in Hh3.
+    apply andb_prop in Econd. destruct Econd as [Econd _]. apply andb_prop in Econd. destruct Econd as [_ El].
+    cbn in El. apply Nat.eqb_eq in El. apply length_zero_iff_nil in El.
+    right; right. split; [congruence|].
+    assert (Hf2 : s_fatal (set_input st1 (skipn n (s_input st1))) = None) by (cbn; congruence).
+    destruct (read_checked_dead _ _ _ _ Er Hb El Hf2) as [Hs | [Hin [Hi [Hfn Hcl]]]]; auto 6.
+  - cbn in He. discriminate.
+Qed.
+
+Lemma read_dead_keep : forall e st c, read_dead e st -> read_dead e (fst (step st c)).
+Proof.
+  intros e st c [Hc | [Hf | [Hd HB]]].
+  - left. apply (step_mono st c). exact Hc.
+  - right; left. destruct (step_mono st c) as [_ [_ [_ [_ [Hh _]]]]]. rewrite Hh; [exact Hf|congruence].
+  - destruct HB as [Hfa | [Hin [Hi Hfa]]].
+    { right; right. destruct (step_mono st c) as [_ [_ [_ [_ [Hh [_ [_ Hk]]]]]]].
+      split; [rewrite Hh; [exact Hd|congruence]|]. left. apply Hk. exact Hfa. }
+    assert (Hsame : forall s, s_hs s = s_hs st -> s_in_err s = s_in_err st -> s_input s = s_input st ->
+              s_fatal s = s_fatal st -> read_dead e s).
+    { intros s H1 H2 H3 H4. right; right. rewrite H1, H2, H3, H4. auto. }
+    step_cases c; cbn [step].
+    + unfold do_read. destruct (s_closed st) eqn:Ec; [left; exact Ec|].
+      rewrite (handshake_done _ _ Hd).
+      destruct (Nat.eqb n 0); [apply Hsame; reflexivity|].
+      destruct Hfa as [[Hfn Hcl] | Hfc].
+      * rewrite Hfn, (fill_latched _ _ Hi Hin). cbn [fst].
+        nf_fields st (Some e). apply Hsame; try assumption.
+        rewrite note_fatal_latch, Hfn. exact Hcl.
+      * rewrite Hfc. apply Hsame; reflexivity.
+    + destruct (do_write_cases st bs) as [[Hc ->] | [Hc [st0 [he [sent0 [Eh Hw]]]]]]; [left; exact Hc|].
+      rewrite (handshake_done _ _ Hd) in Eh. inv Eh.
+      destruct (s_out_err st0); [rewrite Hw; apply Hsame; reflexivity|].
+      destruct (s_fatal st0) eqn:Ef0; [rewrite Hw; apply Hsame; cbn [fst]; congruence|].
+      destruct (s_cns st0); [rewrite Hw; apply Hsame; cbn [fst]; congruence|].
+      destruct bs; [rewrite Hw; apply Hsame; cbn [fst]; congruence|].
+      destruct (tx_dead st0); rewrite Hw; [|apply Hsame; cbn [fst]; congruence].
+      right; right. cbn. auto 6.
+    + unfold do_closewrite. rewrite Hd.
+      destruct (close_notify st) as [[st1 x] sent] eqn:Ecn.
+      pose proof (close_notify_spec _ _ _ _ Ecn) as H. destruct H as (?&?&?&?&?&?&?&?&?).
+      pose proof (close_notify_fatal _ _ _ _ Ecn).
+      cbn [fst]. apply Hsame; assumption.
+    + left. apply close_sets_closed.
+    + unfold do_handshake. rewrite (handshake_done _ _ Hd). apply Hsame; reflexivity.
+    + destruct (s_ended st); apply Hsame; reflexivity.
+    + destruct (s_ended st); apply Hsame; reflexivity.
+    + destruct (s_ended st); apply Hsame; reflexivity.
+Qed.
+
+Lemma read_dead_read : forall e st n, read_dead e st -> n <> 0 ->
+  snd (do_read st n) = fail e [] \/ snd (do_read st n) = fail XClosed [].
+Proof.
+  intros e st n [Hc | [Hf | [Hd HB]]] Hn.
+  - unfold do_read. rewrite Hc. cbn. auto.
+  - unfold do_read. destruct (s_closed st); [cbn; auto|]. rewrite (handshake_failed _ _ _ Hf). cbn. auto.
+  - unfold do_read. destruct (s_closed st); [cbn; auto|]. rewrite (handshake_done _ _ Hd).
+    destruct (Nat.eqb n 0) eqn:E0; [apply Nat.eqb_eq in E0; contradiction|].
+    destruct HB as [Hfa | [Hin [Hi [[Hfn _] | Hfc]]]].
+    + rewrite Hfa. cbn. auto.
+    + rewrite Hfn, (fill_latched _ _ Hi Hin). cbn. auto.
+    + rewrite Hfc. cbn. auto.
+Qed.
+
+Theorem sticky_read_error : forall pl h i j n e m oi oj,
+  i < j -> nth_error h i = Some (CRead n) -> nth_error (run (init pl) h) i = Some oi ->
+  o_err oi = Some e -> e <> XBlock ->
+  nth_error h j = Some (CRead m) -> m <> 0 -> nth_error (run (init pl) h) j = Some oj ->
+  oj = fail e [] \/ oj = fail XClosed [].
+Proof.
+  intros pl h i j n e m oi oj Hij Hi Hoi He Hb Hj Hm Hoj.
+  rewrite (run_nth _ _ _ _ Hi) in Hoi. inv Hoi. cbn [step] in He.
+  pose proof (read_error_state _ _ _ He Hb) as HP.
+  eapply (later_call (read_dead e)
+            (fun c o => match c with
+                        | CRead m => m <> 0 -> o = fail e [] \/ o = fail XClosed []
+                        | _ => True end) h (init pl) i j (CRead n) (CRead m) oj); eauto.
+  - intros s c Hs. apply read_dead_keep. exact Hs.
+  - intros s c Hs. destruct c; auto. intros Hm0. cbn [step]. apply read_dead_read; auto.
+Qed.
+
+(* --- nothing is sent once the write side is dead --- *)
 Definition write_dead (st : state) : Prop :=
   s_closed st = true \/ (exists x, s_hs st = HFailed x) \/
-  (s_hs st = HDone /\ (s_out_err st <> None \/ s_cns st = true)).
+  (s_hs st = HDone /\ (s_out_err st <> None \/ s_cns st = true \/ s_fatal st <> None)).
 
 Lemma write_dead_keep : forall st c, write_dead st -> write_dead (fst (step st c)).
 Proof.
-  intros st c H. destruct (step_mono st c) as [_ [Hc [Hcns [Ho [Hh _]]]]].
-  destruct H as [H | [[x H] | [Hd [H | H]]]].
+  intros st c H. destruct (step_mono st c) as [_ [Hc [Hcns [Ho [Hh [_ [_ Hk]]]]]]].
+  destruct H as [H | [[x H] | [Hd [H | [H | H]]]]].
   - left. auto.
   - right; left. exists x. rewrite Hh; [exact H|congruence].
   - right; right. split; [rewrite Hh; [exact Hd|congruence]|]. left. auto.
-  - right; right. split; [rewrite Hh; [exact Hd|congruence]|]. right. auto.
+  - right; right. split; [rewrite Hh; [exact Hd|congruence]|]. right; left. auto.
+  - right; right. split; [rewrite Hh; [exact Hd|congruence]|]. right; right.
+    destruct (s_fatal st) as [f|] eqn:Ef; [|contradiction]. rewrite (Hk f eq_refl). discriminate.
 Qed.
 
-Lemma write_dead_write : forall st bs, write_dead st ->
-  o_err (snd (do_write st bs)) <> None /\ o_n (snd (do_write st bs)) = 0 /\ o_sent (snd (do_write st bs)) = [].
+Lemma write_dead_write : forall st bs, write_dead st -> exists e', snd (do_write st bs) = fail e' [].
 Proof.
   intros st bs H.
   destruct (do_write_cases st bs) as [[Hc ->] | [Hc [st0 [he [sent0 [Eh Hw]]]]]].
-  { cbn. repeat split; auto. discriminate. }
+  { cbn. eauto. }
   destruct H as [H | [[x H] | [Hd H]]]; [congruence| |].
-  - rewrite (handshake_failed _ _ _ H) in Eh. inv Eh. rewrite Hw. cbn. repeat split; auto. discriminate.
+  - rewrite (handshake_failed _ _ _ H) in Eh. inv Eh. rewrite Hw. cbn. eauto.
   - rewrite (handshake_done _ _ Hd) in Eh. inv Eh.
     destruct (s_out_err st0) eqn:Eo.
-    { rewrite Hw. cbn. repeat split; auto. discriminate. }
-    destruct H as [H | H]; [congruence|]. rewrite H in Hw. rewrite Hw. cbn. repeat split; auto. discriminate.
+    { rewrite Hw. cbn. eauto. }
+    destruct (s_fatal st0) eqn:Ef.
+    { rewrite Hw. cbn. eauto. }
+    destruct H as [H | [H | H]]; [congruence| |congruence]. rewrite H in Hw. rewrite Hw. cbn. eauto.
 Qed.
 
 Lemma write_error_state : forall st bs e,
@@ -948,8 +1262,10 @@ Proof.
   destruct Hres as [Hd _].
   destruct (s_out_err st0) eqn:Eo.
   { rewrite Hw. right; right. split; [exact Hd|]. left. cbn. congruence. }
+  destruct (s_fatal st0) eqn:Ef.
+  { rewrite Hw. right; right. split; [exact Hd|]. right; right. cbn. congruence. }
   destruct (s_cns st0) eqn:Ecns.
-  { rewrite Hw. right; right. split; [exact Hd|]. right. exact Ecns. }
+  { rewrite Hw. right; right. split; [exact Hd|]. right; left. exact Ecns. }
   destruct bs.
   { rewrite Hw in He. cbn in He. discriminate. }
   destruct (tx_dead st0); rewrite Hw in *.
@@ -957,21 +1273,30 @@ Proof.
   - cbn in He. discriminate.
 Qed.
 
+Definition later_write_fails (c : call) (o : outcome) : Prop :=
+  match c with CWrite _ => exists e', o = fail e' [] | _ => True end.
+
+Lemma write_dead_later : forall pl h i j ci bs oj,
+  i < j -> nth_error h i = Some ci -> nth_error h j = Some (CWrite bs) ->
+  write_dead (fst (step (exec (init pl) (firstn i h)) ci)) ->
+  nth_error (run (init pl) h) j = Some oj ->
+  exists e', oj = fail e' [].
+Proof.
+  intros pl h i j ci bs oj Hij Hi Hj HP Hoj.
+  eapply (later_call write_dead later_write_fails h (init pl) i j ci (CWrite bs) oj); eauto.
+  - intros s c Hs. apply write_dead_keep. exact Hs.
+  - intros s c Hs. destruct c; cbn; auto. apply write_dead_write. exact Hs.
+Qed.
+
 Theorem sticky_write_error : forall pl h i j bs e bs' oi oj,
   i < j -> nth_error h i = Some (CWrite bs) -> nth_error (run (init pl) h) i = Some oi ->
   o_err oi = Some e -> e <> XBlock ->
   nth_error h j = Some (CWrite bs') -> nth_error (run (init pl) h) j = Some oj ->
-  o_err oj <> None /\ o_n oj = 0 /\ o_sent oj = [].
+  exists e', oj = fail e' [].
 Proof.
   intros pl h i j bs e bs' oi oj Hij Hi Hoi He Hb Hj Hoj.
   rewrite (run_nth _ _ _ _ Hi) in Hoi. inv Hoi. cbn [step] in He.
-  pose proof (write_error_state _ _ _ He Hb) as HP.
-  eapply (later_call write_dead
-            (fun c o => match c with
-                        | CWrite _ => o_err o <> None /\ o_n o = 0 /\ o_sent o = []
-                        | _ => True end) h (init pl) i j (CWrite bs) (CWrite bs') oj); eauto.
-  - intros s c Hs. apply write_dead_keep. exact Hs.
-  - intros s c Hs. destruct c; auto. cbn [step]. apply write_dead_write. exact Hs.
+  eapply write_dead_later; eauto. cbn [step]. eapply write_error_state; eauto.
 Qed.
 
 (* writing after the write side was shut down *)
@@ -979,108 +1304,118 @@ Theorem sticky_closewrite : forall pl h i j bs oi oj,
   i < j -> nth_error h i = Some CCloseWrite -> nth_error (run (init pl) h) i = Some oi ->
   o_err oi <> Some XEarlyCloseWrite ->
   nth_error h j = Some (CWrite bs) -> nth_error (run (init pl) h) j = Some oj ->
-  o_err oj <> None /\ o_n oj = 0 /\ o_sent oj = [].
+  exists e', oj = fail e' [].
 Proof.
   intros pl h i j bs oi oj Hij Hi Hoi He Hj Hoj.
   rewrite (run_nth _ _ _ _ Hi) in Hoi. inv Hoi. cbn [step] in He.
-  assert (HP : write_dead (fst (step (exec (init pl) (firstn i h)) CCloseWrite))).
-  { cbn [step]. unfold do_closewrite in *. destruct (s_hs (exec (init pl) (firstn i h))) eqn:Eh.
-    - cbn in He. congruence.
-    - destruct (close_notify (exec (init pl) (firstn i h))) as [[st1 e] sent] eqn:Ec.
-      pose proof (close_notify_spec _ _ _ _ Ec) as H. destruct H as (Hcns&?&Hh&?).
-      right; right. cbn. split; [congruence|]. right. exact Hcns.
-    - cbn in He. congruence. }
-  eapply (later_call write_dead
-            (fun c o => match c with
-                        | CWrite _ => o_err o <> None /\ o_n o = 0 /\ o_sent o = []
-                        | _ => True end) h (init pl) i j CCloseWrite (CWrite bs) oj); eauto.
-  - intros s c Hs. apply write_dead_keep. exact Hs.
-  - intros s c Hs. destruct c; auto. cbn [step]. apply write_dead_write. exact Hs.
+  eapply write_dead_later; eauto.
+  cbn [step]. unfold do_closewrite in *. destruct (s_hs (exec (init pl) (firstn i h))) eqn:Eh.
+  - cbn in He. congruence.
+  - destruct (close_notify (exec (init pl) (firstn i h))) as [[st1 e] sent] eqn:Ec.
+    pose proof (close_notify_spec _ _ _ _ Ec) as H. destruct H as (Hcns&?&Hh&?).
+    right; right. cbn. split; [congruence|]. right; left. exact Hcns.
+  - cbn in He. congruence.
 Qed.
 
-(* --- across the halves --- *)
+(* --- across the halves: the connection-wide latch --- *)
+(* any error returned by Read, end-of-stream and "would block" apart, stops Write *)
 Lemma read_error_kills_write : forall st n e,
-  wf st -> o_err (snd (do_read st n)) = Some e -> ~ recv_err e -> e <> XBlock ->
+  wf st -> o_err (snd (do_read st n)) = Some e -> e <> XBlock -> e <> XEof ->
   write_dead (fst (do_read st n)).
 Proof.
-  intros st n e Hwf He Hr Hb.
+  intros st n e Hwf He Hb Heof.
   pose proof (step_wf st (CRead n) Hwf) as Hwf'. cbn [step] in Hwf'.
-  destruct (s_closed st) eqn:Ec.
-  { unfold do_read in *. rewrite Ec in *. left. exact Ec. }
-  destruct (handshake st None) as [[st0 he] sent0] eqn:Eh.
-  rewrite (do_read_unfold _ n _ _ _ Ec Eh) in *.
-  destruct (handshake_sum _ _ _ _ _ Eh) as [_ [Hres _]].
-  destruct he as [x|].
-  { cbn in He. inv He. cbn [fst]. destruct Hres as [[-> _] | [[Hf _] | [_ [_ [_ [C _]]]]]]; [contradiction | | contradiction].
-    right; left. eauto. }
-  destruct Hres as [Hd _].
-  destruct (Nat.eqb n 0); [cbn in He; discriminate|].
-  destruct (fill st0) as [[st1 fe] sent1] eqn:Ef.
-  destruct (fill_frame _ _ _ _ Ef) as [[_ [Hh1 _]] _].
-  destruct fe as [x|].
-  { cbn in He. inv He. cbn [fst] in *. destruct (fill_err _ _ _ _ Ef Hb) as [Hin _].
-    destruct Hwf' as [H1 _]. destruct (H1 _ Hin) as [C | [_ Ho]]; [contradiction|].
-    right; right. split; [congruence|]. left. exact Ho. }
-  cbv zeta in *.
-  match type of He with context [if ?b then _ else _] => destruct b eqn:Econd end.
-  - destruct (read_record (set_input st1 (skipn n (s_input st1)))) as [[st3 pe] sent3] eqn:Er.
-    cbn in He. subst pe. cbn [fst] in *.
-    destruct (read_record_frame _ _ _ _ Er) as [[_ [Hh3 _]] _]. cbn in Hh3.
-    destruct (read_record_err _ _ _ _ Er) as [_ Hin3].
-    destruct Hwf' as [H1 _]. destruct (H1 _ (Hin3 Hb)) as [C | [_ Ho]]; [contradiction|].
-    right; right. split; [congruence|]. left. exact Ho.
-  - cbn in He. discriminate.
+  destruct (read_error_state _ _ _ He Hb) as [Hc | [Hf | [Hd HB]]].
+  - left. exact Hc.
+  - right; left. eauto.
+  - right; right. split; [exact Hd|].
+    destruct HB as [Hfa | [Hin [_ [[Hfn Hcl] | Hfc]]]].
+    + right; right. congruence.
+    + destruct Hwf' as [H1 _]. destruct (H1 _ Hin) as [Hr | [_ Ho]]; [|left; exact Ho].
+      exfalso. destruct e; try discriminate; try contradiction.
+    + right; right. congruence.
 Qed.
 
 Theorem sticky_read_error_stops_write : forall pl h i j n e bs oi oj,
   i < j -> nth_error h i = Some (CRead n) -> nth_error (run (init pl) h) i = Some oi ->
-  o_err oi = Some e -> ~ recv_err e -> e <> XBlock ->
+  o_err oi = Some e -> e <> XBlock -> e <> XEof ->
   nth_error h j = Some (CWrite bs) -> nth_error (run (init pl) h) j = Some oj ->
-  o_err oj <> None /\ o_n oj = 0 /\ o_sent oj = [].
+  exists e', oj = fail e' [].
 Proof.
-  intros pl h i j n e bs oi oj Hij Hi Hoi He Hr Hb Hj Hoj.
+  intros pl h i j n e bs oi oj Hij Hi Hoi He Hb Heof Hj Hoj.
   rewrite (run_nth _ _ _ _ Hi) in Hoi. inv Hoi. cbn [step] in He.
-  pose proof (read_error_kills_write _ _ _ (exec_wf pl (firstn i h)) He Hr Hb) as HP.
-  eapply (later_call write_dead
-            (fun c o => match c with
-                        | CWrite _ => o_err o <> None /\ o_n o = 0 /\ o_sent o = []
-                        | _ => True end) h (init pl) i j (CRead n) (CWrite bs) oj); eauto.
-  - intros s c Hs. apply write_dead_keep. exact Hs.
-  - intros s c Hs. destruct c; auto. cbn [step]. apply write_dead_write. exact Hs.
+  eapply write_dead_later; eauto. cbn [step].
+  eapply read_error_kills_write; eauto. apply exec_wf.
 Qed.
 
-(* a Write that failed for a reason other than shutdown, a closed connection or an alert this
-   endpoint sent failed because the handshake failed: nothing is read afterwards either *)
+(* nothing is delivered once the connection is dead *)
+Definition conn_dead (st : state) : Prop :=
+  s_closed st = true \/ (exists x, s_hs st = HFailed x) \/ (s_hs st = HDone /\ s_fatal st <> None).
+
+Lemma conn_dead_keep : forall st c, conn_dead st -> conn_dead (fst (step st c)).
+Proof.
+  intros st c H. destruct (step_mono st c) as [_ [Hc [_ [_ [Hh [_ [_ Hk]]]]]]].
+  destruct H as [H | [[x H] | [Hd H]]].
+  - left. auto.
+  - right; left. exists x. rewrite Hh; [exact H|congruence].
+  - right; right. split; [rewrite Hh; [exact Hd|congruence]|].
+    destruct (s_fatal st) as [f|] eqn:Ef; [|contradiction]. rewrite (Hk f eq_refl). discriminate.
+Qed.
+
+Lemma conn_dead_read : forall st n, conn_dead st -> n <> 0 -> exists e', snd (do_read st n) = fail e' [].
+Proof.
+  intros st n H Hn. unfold do_read.
+  destruct (s_closed st) eqn:Ec; [cbn; eauto|].
+  destruct H as [H | [[x H] | [Hd H]]]; [congruence| |].
+  - rewrite (handshake_failed _ _ _ H). cbn. eauto.
+  - rewrite (handshake_done _ _ Hd).
+    destruct (Nat.eqb n 0) eqn:E0; [apply Nat.eqb_eq in E0; contradiction|].
+    destruct (s_fatal st); [cbn; eauto|contradiction].
+Qed.
+
+(* any error returned by Write, "shutdown" (CloseWrite came before) and "would block" apart, stops Read *)
+Lemma write_error_kills_read : forall st bs e,
+  latched st -> o_err (snd (do_write st bs)) = Some e -> e <> XBlock -> e <> XShutdown ->
+  conn_dead (fst (do_write st bs)).
+Proof.
+  intros st bs e HL He Hb Hs.
+  destruct (do_write_cases st bs) as [[Hc Hw] | [Hc [st0 [he [sent0 [Eh Hw]]]]]].
+  { rewrite Hw. left. exact Hc. }
+  destruct (handshake_sum _ _ _ _ _ Eh) as [_ [Hres _]].
+  pose proof (handshake_latched _ _ _ _ _ Eh HL) as HL0.
+  destruct he as [x|].
+  { rewrite Hw in *. cbn in He. inv He. cbn [fst].
+    destruct Hres as [[-> _] | [[Hf _] | [_ [_ [_ [C _]]]]]]; [contradiction| |contradiction].
+    right; left. eauto. }
+  destruct Hres as [Hd _].
+  destruct (s_out_err st0) eqn:Eo.
+  { rewrite Hw. right; right. split; [exact Hd|]. apply HL0. congruence. }
+  destruct (s_fatal st0) eqn:Ef.
+  { rewrite Hw. right; right. split; [exact Hd|]. cbn. congruence. }
+  destruct (s_cns st0) eqn:Ecns.
+  { rewrite Hw in He. cbn in He. congruence. }
+  destruct bs.
+  { rewrite Hw in He. cbn in He. discriminate. }
+  destruct (tx_dead st0); rewrite Hw in *.
+  - right; right. cbn. split; [exact Hd|]. discriminate.
+  - cbn in He. discriminate.
+Qed.
+
 Theorem sticky_write_error_stops_read : forall pl h i j bs e m oi oj,
   i < j -> nth_error h i = Some (CWrite bs) -> nth_error (run (init pl) h) i = Some oi ->
-  o_err oi = Some e -> e <> XBlock -> e <> XShutdown -> e <> XClosed -> (forall c, e <> XLocal c) ->
-  nth_error h j = Some (CRead m) -> nth_error (run (init pl) h) j = Some oj ->
-  (oj = fail e [] \/ oj = fail XClosed []).
+  o_err oi = Some e -> e <> XBlock -> e <> XShutdown ->
+  nth_error h j = Some (CRead m) -> m <> 0 -> nth_error (run (init pl) h) j = Some oj ->
+  exists e', oj = fail e' [].
 Proof.
-  intros pl h i j bs e m oi oj Hij Hi Hoi He Hb Hs Hc Hl Hj Hoj.
+  intros pl h i j bs e m oi oj Hij Hi Hoi He Hb Hs Hj Hm Hoj.
   rewrite (run_nth _ _ _ _ Hi) in Hoi. inv Hoi. cbn [step] in He.
-  assert (HP : s_hs (fst (step (exec (init pl) (firstn i h)) (CWrite bs))) = HFailed e).
-  { cbn [step]. set (st := exec (init pl) (firstn i h)) in *.
-    pose proof (exec_wf pl (firstn i h)) as Hwf. fold st in Hwf.
-    destruct (do_write_cases st bs) as [[Hcl Hw] | [Hcl [st0 [he [sent0 [Eh Hw]]]]]].
-    { rewrite Hw in He. cbn in He. congruence. }
-    destruct (handshake_sum _ _ _ _ _ Eh) as [_ [Hres _]].
-    pose proof (handshake_wf _ _ _ _ _ Eh Hwf) as [_ Hwf2].
-    destruct he as [x|].
-    { rewrite Hw in *. cbn in He. inv He. cbn [fst].
-      destruct Hres as [[-> _] | [[Hf _] | [_ [_ [_ [C _]]]]]]; [contradiction|exact Hf|contradiction]. }
-    destruct (s_out_err st0) eqn:Eo.
-    { rewrite Hw in He. cbn in He. inv He. destruct (Hwf2 _ eq_refl) as [[c ->] | ->]; [exfalso; eapply Hl; eauto | contradiction]. }
-    destruct (s_cns st0).
-    { rewrite Hw in He. cbn in He. congruence. }
-    destruct bs; [rewrite Hw in He; cbn in He; discriminate|].
-    destruct (tx_dead st0); rewrite Hw in He; cbn in He; congruence. }
-  eapply (later_call (fun s => s_hs s = HFailed e)
+  eapply (later_call conn_dead
             (fun c o => match c with
-                        | CRead _ => o = fail e [] \/ o = fail XClosed []
+                        | CRead m => m <> 0 -> exists e', o = fail e' []
                         | _ => True end) h (init pl) i j (CWrite bs) (CRead m) oj); eauto.
-  - intros s c Hs'. destruct (step_mono s c) as [_ [_ [_ [_ [Hh _]]]]]. rewrite Hh; [exact Hs'|congruence].
-  - intros s c Hs'. pose proof (failed_calls s c e Hs') as H. destruct c; auto.
+  - intros s c Hs'. apply conn_dead_keep. exact Hs'.
+  - intros s c Hs'. destruct c; auto. intros Hm0. cbn [step]. apply conn_dead_read; auto.
+  - cbn [step]. eapply write_error_kills_read; eauto. apply exec_latched.
 Qed.
 
 (* ------------------------------------------------------------------ *)
@@ -1531,8 +1866,6 @@ Qed.
 
 Ltac lists := repeat rewrite <- app_assoc; cbn [app]; try reflexivity; try congruence.
 
-Ltac inj3 H := injection H as <- <- <-.
-
 Lemma inv_read_record : forall A E D st st' e sent,
   no_partial A -> s_ended st = isS E -> InvDone A E D st -> s_input st = [] ->
   read_record st = (st', e, sent) -> InvDone A E D st' /\ (e = None \/ s_input st' = []).
@@ -1755,6 +2088,22 @@ Proof.
   - exact H.
 Qed.
 
+Lemma inv_read_checked : forall A E D st st' e sent,
+  no_partial A -> s_ended st = isS E -> InvDone A E D st -> s_input st = [] ->
+  read_checked st = (st', e, sent) -> InvDone A E D st'.
+Proof.
+  intros A E D st st' e sent HA Hend HI Ei H. unfold read_checked in H.
+  destruct (read_record st) as [[st1 e1] sent1] eqn:Err.
+  destruct (inv_read_record _ _ _ _ _ _ _ HA Hend HI Ei Err) as [HI1 _].
+  destruct e1 as [x|].
+  { inj3 H. nf_fields st1 (Some x). eapply invdone_same; [| | | |exact HI1]; assumption. }
+  destruct (s_hand st1); [|inj3 H; exact HI1].
+  unfold send_alert in H. inj3 H.
+  match goal with |- InvDone _ _ _ (note_fatal ?s ?e) => nf_fields s e end.
+  unfold InvDone.
+  match goal with Hx : s_in_err (note_fatal _ _) = _ |- _ => rewrite Hx end. cbn. exact I.
+Qed.
+
 Lemma inv_fill : forall A E D st st' e sent,
   no_partial A -> s_ended st = isS E -> InvDone A E D st ->
   fill st = (st', e, sent) -> InvDone A E D st'.
@@ -1762,11 +2111,7 @@ Proof.
   intros A E D st st' e sent HA Hend HI H. unfold fill in H.
   destruct (s_input st) eqn:Ei.
   2:{ inj3 H. exact HI. }
-  destruct (read_record st) as [[st1 e1] sent1] eqn:Err.
-  destruct (inv_read_record _ _ _ _ _ _ _ HA Hend HI Ei Err) as [HI1 _].
-  destruct e1; [inj3 H; exact HI1|].
-  destruct (s_hand st1); inj3 H; [|exact HI1].
-  unfold InvDone. cbn. exact I.
+  eapply inv_read_checked; eauto.
 Qed.
 
 Lemma inv_deliver : forall A E D st n,
@@ -1870,6 +2215,7 @@ Proof.
     destruct he as [x|]; [cbn; rewrite app_nil_r; exact HI0|].
     destruct Hres as [Hd _].
     destruct (Nat.eqb n 0); [cbn; rewrite app_nil_r; exact HI0|].
+    destruct (s_fatal st0); [cbn; rewrite app_nil_r; exact HI0|].
     destruct (inv_done _ _ _ _ HI0 Hd) as [Hend0 [HA HD0]].
     destruct (fill st0) as [[st1 fe] sent1] eqn:Ef.
     pose proof (inv_fill _ _ _ _ _ _ _ HA Hend0 HD0 Ef) as HD1.
@@ -1881,13 +2227,13 @@ Proof.
     { intros Hx. unfold InvDone in HD1. rewrite Hx in HD1. tauto. }
     pose proof (inv_deliver _ _ _ _ n HD1 Heofin) as HD2.
     match goal with |- context [if ?b then _ else _] => destruct b eqn:Econd end.
-    + destruct (read_record (set_input st1 (skipn n (s_input st1)))) as [[st3 pe] sent3] eqn:Er.
+    + destruct (read_checked (set_input st1 (skipn n (s_input st1)))) as [[st3 pe] sent3] eqn:Er.
       cbn [fst snd o_data].
       apply andb_prop in Econd. destruct Econd as [Econd _]. apply andb_prop in Econd. destruct Econd as [_ El].
       cbn in El. apply Nat.eqb_eq in El. apply length_zero_iff_nil in El.
-      destruct (read_record_frame _ _ _ _ Er) as [[Hp3 [Hh3 [_ [_ [_ [_ [He3 _]]]]]]] _]. cbn in Hp3, Hh3, He3.
+      destruct (read_checked_frame _ _ _ _ Er) as [[Hp3 [Hh3 [_ [_ [_ [_ [He3 _]]]]]]] _]. cbn in Hp3, Hh3, He3.
       assert (Hend2 : s_ended (set_input st1 (skipn n (s_input st1))) = isS E) by (cbn; congruence).
-      destruct (inv_read_record _ _ _ _ _ _ _ HA Hend2 HD2 El Er) as [HD3 _].
+      pose proof (inv_read_checked _ _ _ _ _ _ _ HA Hend2 HD2 El Er) as HD3.
       eapply inv_of_done; eauto; congruence.
     + cbn [fst snd o_data]. eapply inv_of_done; eauto.
   - (* Write *)
@@ -1897,6 +2243,7 @@ Proof.
     pose proof (inv_handshake _ _ _ _ _ _ _ _ HI Eh) as HI0.
     destruct he; [rewrite Hw; cbn; rewrite app_nil_r; exact HI0|].
     destruct (s_out_err st0); [rewrite Hw; cbn; rewrite app_nil_r; exact HI0|].
+    destruct (s_fatal st0); [rewrite Hw; cbn; rewrite app_nil_r; exact HI0|].
     destruct (s_cns st0); [rewrite Hw; cbn; rewrite app_nil_r; exact HI0|].
     destruct bs; [rewrite Hw; cbn; rewrite app_nil_r; exact HI0|].
     destruct (tx_dead st0); rewrite Hw; cbn; rewrite app_nil_r; [|exact HI0].
@@ -2019,19 +2366,104 @@ Proof.
   rewrite arrived_from_app in H. apply no_partial_app in H. tauto.
 Qed.
 
+(* what the connection-wide latch can hold: never end-of-stream, and unexpected-EOF only while
+   that error is latched on the read half *)
+Definition fok (st : state) : Prop :=
+  s_fatal st <> Some XEof /\ (s_fatal st = Some XUnexpectedEof -> s_in_err st = Some XUnexpectedEof).
+
+Lemma fok_same : forall a b, s_in_err b = s_in_err a -> s_fatal b = s_fatal a -> fok a -> fok b.
+Proof. intros a b Hi Hf H. unfold fok in *. rewrite Hi, Hf. exact H. Qed.
+
+Lemma fok_none : forall st, s_fatal st = None -> fok st.
+Proof. intros st H. unfold fok. rewrite H. split; intros; discriminate. Qed.
+
+Lemma read_checked_fok : forall st st' e sent,
+  s_fatal st = None -> read_checked st = (st', e, sent) -> fok st'.
+Proof.
+  intros st st' e sent Hf H. destruct e as [x|].
+  - destruct (read_checked_err _ _ _ _ H) as [Hin [_ [Hfa _]]]. specialize (Hfa Hf).
+    unfold fok. rewrite Hfa. split.
+    + destruct x; discriminate.
+    + intros Hx. destruct x; try discriminate. apply Hin. discriminate.
+  - destruct (read_checked_ok _ _ _ H) as [Hr _]. apply fok_none.
+    rewrite (read_record_fatal _ _ _ _ Hr). exact Hf.
+Qed.
+
+Lemma handshake_fok : forall st k st' e sent, handshake st k = (st', e, sent) -> fok st -> fok st'.
+Proof.
+  intros st k st' e sent H HF. destruct (handshake_sum _ _ _ _ _ H) as [Hio _].
+  unfold same_io in Hio. destruct Hio as [? [? [? [? [? [? [? [? [? [? ?]]]]]]]]]]. eapply fok_same; eauto.
+Qed.
+
+Lemma step_fok : forall st c, fok st -> fok (fst (step st c)).
+Proof.
+  intros st c HF. step_cases c; cbn [step].
+  - destruct (s_closed st) eqn:Ec.
+    { unfold do_read. rewrite Ec. exact HF. }
+    destruct (handshake st None) as [[st0 he] sent0] eqn:Eh.
+    rewrite (do_read_unfold _ n _ _ _ Ec Eh).
+    pose proof (handshake_fok _ _ _ _ _ Eh HF) as HF0.
+    destruct he; [exact HF0|].
+    destruct (Nat.eqb n 0); [exact HF0|].
+    destruct (s_fatal st0) eqn:Efa; [exact HF0|].
+    destruct (fill st0) as [[st1 fe] sent1] eqn:Ef.
+    assert (HF1 : fok st1).
+    { unfold fill in Ef. destruct (s_input st0).
+      - eapply read_checked_fok; eauto.
+      - inv Ef. exact HF0. }
+    destruct fe; [exact HF1|]. cbv zeta.
+    destruct (fill_ok _ _ _ Ef) as [_ [Hfa1 _]].
+    match goal with |- context [if ?b then _ else _] => destruct b end.
+    + destruct (read_checked (set_input st1 (skipn n (s_input st1)))) as [[st3 pe] sent3] eqn:Er.
+      cbn [fst]. eapply read_checked_fok; [|exact Er]. cbn. congruence.
+    + cbn [fst]. eapply fok_same; [| |exact HF1]; reflexivity.
+  - destruct (do_write_cases st bs) as [[Hc ->] | [Hc [st0 [he [sent0 [Eh Hw]]]]]]; [exact HF|].
+    pose proof (handshake_fok _ _ _ _ _ Eh HF) as HF0.
+    destruct he; [rewrite Hw; exact HF0|].
+    destruct (s_out_err st0) eqn:Eo; [rewrite Hw; exact HF0|].
+    destruct (s_fatal st0); [rewrite Hw; exact HF0|].
+    destruct (s_cns st0); [rewrite Hw; exact HF0|].
+    destruct bs; [rewrite Hw; exact HF0|].
+    destruct (tx_dead st0); rewrite Hw; [|exact HF0].
+    cbn [fst]. unfold fok. cbn. split; intros; discriminate.
+  - unfold do_closewrite. destruct (s_hs st); try exact HF.
+    destruct (close_notify st) as [[st1 e] sent] eqn:Ec.
+    pose proof (close_notify_spec _ _ _ _ Ec) as H. destruct H as (?&?&?&?&?&?).
+    pose proof (close_notify_fatal _ _ _ _ Ec).
+    cbn [fst]. eapply fok_same; eauto.
+  - unfold do_close. destruct (s_closed st); [exact HF|].
+    destruct (s_hs (set_closed st true)).
+    + cbn [fst]. eapply fok_same; [| |exact HF]; reflexivity.
+    + destruct (close_notify (set_closed st true)) as [[st1 e] sent] eqn:Ecn.
+      pose proof (close_notify_spec _ _ _ _ Ecn) as H. cbn in H. destruct H as (?&?&?&?&?&?).
+      pose proof (close_notify_fatal _ _ _ _ Ecn) as Hf. cbn in Hf.
+      cbn [fst]. eapply fok_same; [| |exact HF]; cbn; congruence.
+    + cbn [fst]. eapply fok_same; [| |exact HF]; reflexivity.
+  - unfold do_handshake. destruct (handshake st k) as [[st1 e] sent] eqn:Eh. cbn [fst].
+    eapply handshake_fok; eauto.
+  - destruct (s_ended st); [exact HF|]. eapply fok_same; [| |exact HF]; reflexivity.
+  - destruct (s_ended st); [exact HF|]. eapply fok_same; [| |exact HF]; reflexivity.
+  - destruct (s_ended st); eapply fok_same; try exact HF; reflexivity.
+Qed.
+
+Lemma exec_fok : forall pl h, fok (exec (init pl) h).
+Proof. intros pl h. apply exec_inv; [intros; apply step_fok; assumption | apply fok_none; reflexivity]. Qed.
+
 (* what the state looks like after a Read that returned an end-of-stream class *)
 Lemma read_eofish_state : forall st n e,
-  o_err (snd (do_read st n)) = Some e -> (e = XEof \/ e = XUnexpectedEof) ->
+  fok st -> o_err (snd (do_read st n)) = Some e -> (e = XEof \/ e = XUnexpectedEof) ->
   s_hs (fst (do_read st n)) = HFailed e \/
-  (s_hs (fst (do_read st n)) = HDone /\ s_in_err (fst (do_read st n)) = Some e /\ s_input (fst (do_read st n)) = []).
+  (s_hs (fst (do_read st n)) = HDone /\ s_in_err (fst (do_read st n)) = Some e).
 Proof.
-  intros st n e He Hcls.
+  intros st n e HF He Hcls.
   assert (Hb : e <> XBlock) by (destruct Hcls; subst; discriminate).
-  assert (H100 : e <> XLocal 100) by (destruct Hcls; subst; discriminate).
-  destruct (read_error_state _ _ _ He Hb H100) as [Hc | [Hf | Hd]]; auto.
-  exfalso. pose proof (do_read_frame st n) as Hfr. cbv zeta in Hfr.
-  destruct Hfr as [_ [_ [_ [Hcl _]]]]. rewrite Hcl in Hc.
-  unfold do_read in He. rewrite Hc in He. cbn in He. destruct Hcls; subst; discriminate.
+  pose proof (step_fok st (CRead n) HF) as HF'. cbn [step] in HF'.
+  destruct (read_error_state _ _ _ He Hb) as [Hc | [Hf | [Hd HB]]]; auto.
+  - exfalso. pose proof (do_read_frame st n) as Hfr. cbv zeta in Hfr.
+    destruct Hfr as [_ [_ [_ [Hcl _]]]]. rewrite Hcl in Hc.
+    unfold do_read in He. rewrite Hc in He. cbn in He. destruct Hcls; subst; discriminate.
+  - right. split; [exact Hd|]. destruct HB as [Hfa | [Hin _]]; [|exact Hin].
+    destruct HF' as [H1 H2]. destruct Hcls; subst e; [contradiction|]. apply H2. exact Hfa.
 Qed.
 
 Theorem eof_faithful : forall pl h i n o,
@@ -2045,6 +2477,7 @@ Proof.
   intros pl h i n o Hpl Hnp Hi Ho.
   rewrite (run_nth _ _ _ _ Hi) in Ho. inv Ho.
   pose proof (inv_run pl (firstn i h) Hpl (arrived_prefix h i Hnp)) as HI.
+  pose proof (exec_fok pl (firstn i h)) as HF.
   set (st := exec (init pl) (firstn i h)) in *.
   pose proof (inv_step _ _ _ _ (CRead n) HI) as HS.
   rewrite new_end_other in HS by exact I. unfold new_arr in HS. rewrite app_nil_r in HS.
@@ -2052,51 +2485,74 @@ Proof.
   rewrite (firstn_run _ _ _ _ Hi), delivered_snoc. fold st. cbn [step].
   split.
   - intros He.
-    destruct (read_eofish_state _ _ _ He (or_introl eq_refl)) as [Hf | [Hd [Hin Hi0]]].
+    destruct (read_eofish_state _ _ _ HF He (or_introl eq_refl)) as [Hf | [Hd Hin]].
     + destruct HS as [_ [_ [_ HS]]]. rewrite Hf in HS. destruct HS as [HD [Heof _]].
       destruct (Heof eq_refl) as [Habc Hok]. rewrite HD, Habc. auto.
     + destruct HS as [_ [_ [_ HS]]]. rewrite Hd in HS. unfold InvDone in HS. rewrite Hin in HS.
       destruct HS as [_ [HD Hok]]. auto.
   - intros He.
-    destruct (read_eofish_state _ _ _ He (or_intror eq_refl)) as [Hf | [Hd [Hin Hi0]]].
+    destruct (read_eofish_state _ _ _ HF He (or_intror eq_refl)) as [Hf | [Hd Hin]].
     + destruct HS as [_ [_ [_ HS]]]. rewrite Hf in HS. destruct HS as [_ [_ Hu]]. auto.
     + destruct HS as [_ [_ [_ HS]]]. rewrite Hd in HS. unfold InvDone in HS. rewrite Hin in HS. exact HS.
 Qed.
 
 (* ------------------------------------------------------------------ *)
-(* findings: the full "stays reported" statement fails across halves   *)
+(* the histories of the former findings K10 and K11, on the fixed code  *)
 (* ------------------------------------------------------------------ *)
 
 Definition plan0 : plan := mkPlan 4 1 false None.
 
-(* K10: a fatal alert received (or a truncated transport) is latched on the read half only *)
+(* K10 was: a fatal alert received (or a truncated transport) was latched on the read half only
+   and Write went on sending.  Now Write (and the next Read) return the connection's error. *)
 Lemma write_after_received_fatal_alert :
-  let h := [CHandshake None; CArrive [EApp [1%N]; EAlert 2 40]; CRead 10; CWrite [7%N]] in
+  let h := [CHandshake None; CArrive [EApp [1%N]; EAlert 2 40]; CRead 10; CWrite [7%N]; CRead 10] in
   nth_error (run (init plan0) h) 2 = Some (mkO (Some (XRemote 40)) 0 [1%N] []) /\
-  nth_error (run (init plan0) h) 3 = Some (mkO None 1 [] [SApp [7%N]]).
-Proof. vm_compute. split; reflexivity. Qed.
+  nth_error (run (init plan0) h) 3 = Some (fail (XRemote 40) []) /\
+  nth_error (run (init plan0) h) 4 = Some (fail (XRemote 40) []).
+Proof. vm_compute. repeat split; reflexivity. Qed.
 
 Lemma write_after_truncation :
   let h := [CHandshake None; CArrive [EApp [1%N]]; CEnd (Some (23%N, true)); CRead 10; CRead 10; CWrite [7%N]] in
-  nth_error (run (init plan0) h) 4 = Some (mkO (Some XUnexpectedEof) 0 [] []) /\
-  nth_error (run (init plan0) h) 5 = Some (mkO None 1 [] [SApp [7%N]]).
-Proof. vm_compute. split; reflexivity. Qed.
+  nth_error (run (init plan0) h) 3 = Some (mkO None 0 [1%N] []) /\
+  nth_error (run (init plan0) h) 4 = Some (fail XUnexpectedEof []) /\
+  nth_error (run (init plan0) h) 5 = Some (fail XUnexpectedEof []).
+Proof. vm_compute. repeat split; reflexivity. Qed.
 
-(* K10, the other direction: a failed transport write is latched on the write half only *)
+(* K10, the other direction: a failed transport write was latched on the write half only and Read
+   went on delivering.  Now Read returns the connection's error and the two bytes stay undelivered. *)
 Lemma read_after_failed_write :
   let h := [CHandshake None; CArrive [EApp [1%N; 2%N]]; CGone; CWrite [7%N]; CRead 10] in
-  nth_error (run (init plan0) h) 3 = Some (mkO (Some XClosed) 0 [] []) /\
-  nth_error (run (init plan0) h) 4 = Some (mkO None 0 [1%N; 2%N] []).
+  nth_error (run (init plan0) h) 3 = Some (fail XClosed []) /\
+  nth_error (run (init plan0) h) 4 = Some (fail XClosed []).
 Proof. vm_compute. split; reflexivity. Qed.
 
-(* K11: no_renegotiation is returned while application data sits in c.input; the next Read delivers it *)
+(* K11 was: no_renegotiation returned while application data sat in c.input, delivered by the next
+   Read.  Now the look-ahead of the first Read rejects the handshake record at once: it returns
+   its byte together with the error, and nothing is delivered or sent afterwards. *)
 Lemma read_after_no_renegotiation :
   let h := [CHandshake None; CArrive [EApp [1%N]; EAlert 1 90; EHs; EApp [2%N; 3%N]]; CEnd None;
-            CRead 10; CRead 10; CRead 10; CRead 10] in
-  nth_error (run (init plan0) h) 3 = Some (mkO None 0 [1%N] []) /\
-  nth_error (run (init plan0) h) 4 = Some (mkO (Some (XLocal 100)) 0 [] [SAlert 1 100]) /\
-  nth_error (run (init plan0) h) 5 = Some (mkO None 0 [2%N; 3%N] []) /\
-  nth_error (run (init plan0) h) 6 = Some (mkO (Some (XLocal 100)) 0 [] []).
+            CRead 10; CRead 10; CRead 10; CWrite [3%N]] in
+  nth_error (run (init plan0) h) 3 = Some (mkO (Some (XLocal 100)) 0 [1%N] [SAlert 1 100]) /\
+  nth_error (run (init plan0) h) 4 = Some (fail (XLocal 100) []) /\
+  nth_error (run (init plan0) h) 5 = Some (fail (XLocal 100) []) /\
+  nth_error (run (init plan0) h) 6 = Some (fail (XLocal 100) []).
+Proof. vm_compute. repeat split; reflexivity. Qed.
+
+(* what remains outside "stays reported", by design: end-of-stream is not an error of the
+   connection (Write goes on after the peer's close_notify: half-close), Read goes on after
+   CloseWrite made Write fail with "shutdown", and a Read with an empty buffer, or Handshake, on an
+   established connection return nil even after a fatal error *)
+Lemma not_fatal_examples :
+  (let h := [CHandshake None; CArrive [EAlert 1 0]; CRead 10; CWrite [7%N]] in
+   nth_error (run (init plan0) h) 2 = Some (fail XEof []) /\
+   nth_error (run (init plan0) h) 3 = Some (mkO None 1 [] [SApp [7%N]])) /\
+  (let h := [CHandshake None; CArrive [EApp [1%N]]; CCloseWrite; CWrite [7%N]; CRead 10] in
+   nth_error (run (init plan0) h) 3 = Some (fail XShutdown []) /\
+   nth_error (run (init plan0) h) 4 = Some (mkO None 0 [1%N] [])) /\
+  (let h := [CHandshake None; CArrive [EAlert 2 40]; CRead 10; CRead 0; CHandshake None] in
+   nth_error (run (init plan0) h) 2 = Some (fail (XRemote 40) []) /\
+   nth_error (run (init plan0) h) 3 = Some (mkO None 0 [] []) /\
+   nth_error (run (init plan0) h) 4 = Some (mkO None 0 [] [])).
 Proof. vm_compute. repeat split; reflexivity. Qed.
 
 (* a history that exercises most clauses at once *)
@@ -2151,11 +2607,11 @@ Lemma sticky : forall pl h i j ci cj oi oj,
      match cj with CRead _ | CWrite _ | CClose => oj = fail XClosed [] | _ => True end) /\
   (* 2 *)
   (forall n m e, ci = CRead n -> cj = CRead m -> m <> 0 ->
-     o_err oi = Some e -> e <> XBlock -> e <> XLocal 100 ->
-     (o_err oj = Some e \/ o_err oj = Some XClosed) /\ o_data oj = [] /\ o_sent oj = []) /\
+     o_err oi = Some e -> e <> XBlock ->
+     oj = fail e [] \/ oj = fail XClosed []) /\
   (* 3 *)
   (forall bs bs' e, ci = CWrite bs -> cj = CWrite bs' -> o_err oi = Some e -> e <> XBlock ->
-     o_err oj <> None /\ o_n oj = 0 /\ o_sent oj = []) /\
+     exists e', oj = fail e' []) /\
   (* 4 *)
   (forall k e, ci = CHandshake k -> o_err oi = Some e -> e <> XBlock ->
      exists e', (e' = e \/ (e = XCtx /\ e' = XClosed /\ k <> None)) /\
@@ -2166,23 +2622,22 @@ Lemma sticky : forall pl h i j ci cj oi oj,
        | _ => True
        end) /\
   (* 5 *)
-  (forall n bs e, ci = CRead n -> cj = CWrite bs -> o_err oi = Some e -> ~ recv_err e -> e <> XBlock ->
-     o_err oj <> None /\ o_n oj = 0 /\ o_sent oj = []) /\
-  (forall bs m e, ci = CWrite bs -> cj = CRead m -> o_err oi = Some e ->
-     e <> XBlock -> e <> XShutdown -> e <> XClosed -> (forall c, e <> XLocal c) ->
-     oj = fail e [] \/ oj = fail XClosed []) /\
+  (forall n bs e, ci = CRead n -> cj = CWrite bs -> o_err oi = Some e -> e <> XBlock -> e <> XEof ->
+     exists e', oj = fail e' []) /\
+  (forall bs m e, ci = CWrite bs -> cj = CRead m -> m <> 0 -> o_err oi = Some e -> e <> XBlock -> e <> XShutdown ->
+     exists e', oj = fail e' []) /\
   (* 6 *)
   (forall bs, ci = CCloseWrite -> cj = CWrite bs -> o_err oi <> Some XEarlyCloseWrite ->
-     o_err oj <> None /\ o_n oj = 0 /\ o_sent oj = []).
+     exists e', oj = fail e' []).
 Proof.
   intros pl h i j ci cj oi oj Hij Hi Hoi Hj Hoj.
   split; [|split; [|split; [|split; [|split; [|split]]]]].
   - intros ->. eapply sticky_after_close; eauto.
-  - intros n m e -> -> Hm He Hb H100. eapply sticky_read_error; eauto.
+  - intros n m e -> -> Hm He Hb. eapply sticky_read_error; eauto.
   - intros bs bs' e -> -> He Hb. eapply sticky_write_error; eauto.
   - intros k e -> He Hb. eapply sticky_failed_handshake; eauto.
-  - intros n bs e -> -> He Hr Hb. eapply sticky_read_error_stops_write; eauto.
-  - intros bs m e -> -> He Hb Hs Hc Hl. eapply sticky_write_error_stops_read; eauto.
+  - intros n bs e -> -> He Hb Heof. eapply sticky_read_error_stops_write; eauto.
+  - intros bs m e -> -> Hm He Hb Hs. eapply sticky_write_error_stops_read; eauto.
   - intros bs -> -> He. eapply sticky_closewrite; eauto.
 Qed.
 
@@ -2204,6 +2659,7 @@ Definition nonempty (d : list byte) : Prop := d <> [].
 (* established connection, transport ended, only application data and the tail ahead *)
 Definition honest (R : list byte) (x : eclass) (st : state) : Prop :=
   s_hs st = HDone /\ s_closed st = false /\ s_in_err st = None /\ s_hand st = false /\ s_ended st = true /\
+  s_fatal st = None /\
   exists rest tl, s_raw st ++ s_wire st = map EApp rest ++ tl /\ Forall nonempty rest /\
                   tail_class tl = Some x /\ R = s_input st ++ concat rest.
 
@@ -2230,7 +2686,7 @@ Lemma read_record_honest : forall R x st,
                     s_input st' = d /\ honest (d ++ R') x st') \/
   (R = [] /\ exists st', read_record st = (st', Some x, []) /\ s_in_err st' = Some x /\ s_input st' = []).
 Proof.
-  intros R x st [Hd [Hc [Hie [Hh [He [rest [tl [Heq [Hne [Htl HR]]]]]]]]]] Hin.
+  intros R x st [Hd [Hc [Hie [Hh [He [Hfa [rest [tl [Heq [Hne [Htl HR]]]]]]]]]]] Hin.
   rewrite Hin in HR. cbn in HR. unfold read_record. rewrite Hie, He.
   destruct (s_raw st) as [|ev raw'] eqn:Eraw.
   - (* c.rawInput empty: fetch *)
@@ -2263,6 +2719,19 @@ Proof.
       exists rest', tl. auto.
 Qed.
 
+(* the same for Conn.Read's checked readRecord: no handshake record is pending on an honest state *)
+Lemma read_checked_honest : forall R x st,
+  honest R x st -> s_input st = [] ->
+  (exists d R' st', R = d ++ R' /\ d <> [] /\ read_checked st = (st', None, []) /\
+                    s_input st' = d /\ honest (d ++ R') x st') \/
+  (R = [] /\ exists st', read_checked st = (st', Some x, [])).
+Proof.
+  intros R x st HH Hin. unfold read_checked.
+  destruct (read_record_honest R x st HH Hin) as [[d [R' [st1 [HRd [Hdn [Hrr [Hi1 HH1]]]]]]] | [HR0 [st1 [Hrr _]]]].
+  - left. exists d, R', st1. rewrite Hrr. pose proof HH1 as [_ [_ [_ [Hh1 _]]]]. rewrite Hh1. auto.
+  - right. split; [exact HR0|]. rewrite Hrr. eauto.
+Qed.
+
 Lemma firstn_nonempty : forall (d : list byte) n, d <> [] -> n <> 0 -> firstn n d <> [].
 Proof. intros d n Hd Hn. destruct d; [contradiction|]. destruct n; [contradiction|]. discriminate. Qed.
 
@@ -2276,22 +2745,23 @@ Lemma do_read_honest : forall R x st n,
            \/ (o_err (snd (do_read st n)) = Some x /\ R' = []) )) ).
 Proof.
   intros R x st n HH Hn.
-  pose proof HH as [Hd [Hc [Hie [Hh [He [rest [tl [Heq [Hne [Htl HR]]]]]]]]]].
+  pose proof HH as [Hd [Hc [Hie [Hh [He [Hfa [rest [tl [Heq [Hne [Htl HR]]]]]]]]]]].
   unfold do_read. rewrite Hc, (handshake_done _ _ Hd).
   destruct (Nat.eqb n 0) eqn:En; [apply Nat.eqb_eq in En; contradiction|].
+  rewrite Hfa.
   (* after the fill loop: an honest state whose c.input is not empty, or the end *)
   assert (Hfill : (exists st1, fill st = (st1, None, []) /\ honest R x st1 /\ s_input st1 <> []) \/
                   (R = [] /\ exists st1, fill st = (st1, Some x, []))).
   { unfold fill. destruct (s_input st) as [|b d0] eqn:Ein.
-    - destruct (read_record_honest R x st HH Ein) as [[d [R' [st1 [HRd [Hdn [Hrr [Hi1 HH1]]]]]]] | [HR0 [st1 [Hrr _]]]].
-      + left. exists st1. rewrite Hrr. destruct HH1 as [? [? [? [Hh1 ?]]]]. rewrite Hh1.
+    - destruct (read_checked_honest R x st HH Ein) as [[d [R' [st1 [HRd [Hdn [Hrr [Hi1 HH1]]]]]]] | [HR0 [st1 Hrr]]].
+      + left. exists st1. rewrite Hrr.
         split; [reflexivity|]. split; [rewrite HRd; unfold honest; auto 10|]. rewrite Hi1. exact Hdn.
       + right. split; [exact HR0|]. exists st1. rewrite Hrr. reflexivity.
     - left. exists st. split; [reflexivity|]. split; [exact HH|]. rewrite Ein. discriminate. }
   destruct Hfill as [[st1 [Hf [HH1 Hi1]]] | [HR0 [st1 Hf]]].
   2:{ rewrite Hf. cbn. split; [reflexivity|]. left. auto. }
   rewrite Hf. cbv zeta. cbn [app].
-  destruct HH1 as [Hd1 [Hc1 [Hie1 [Hh1 [He1 [rest1 [tl1 [Heq1 [Hne1 [Htl1 HR1]]]]]]]]]].
+  destruct HH1 as [Hd1 [Hc1 [Hie1 [Hh1 [He1 [Hfa1 [rest1 [tl1 [Heq1 [Hne1 [Htl1 HR1]]]]]]]]]]].
   set (d := s_input st1) in *.
   set (st2 := set_input st1 (skipn n d)).
   assert (Hdata : firstn n d <> []) by (apply firstn_nonempty; assumption).
@@ -2303,7 +2773,7 @@ Proof.
   - (* look-ahead: an alert-typed record follows in c.rawInput *)
     apply andb_prop in Econd. destruct Econd as [Econd _]. apply andb_prop in Econd. destruct Econd as [_ El].
     fold st2 in El. apply Nat.eqb_eq in El. apply length_zero_iff_nil in El.
-    destruct (read_record_honest _ x st2 HH2 El) as [[d' [R' [st3 [HRd [Hdn [Hrr [Hi3 HH3]]]]]]] | [HR0 [st3 [Hrr _]]]].
+    destruct (read_checked_honest _ x st2 HH2 El) as [[d' [R' [st3 [HRd [Hdn [Hrr [Hi3 HH3]]]]]]] | [HR0 [st3 Hrr]]].
     + fold st2. rewrite Hrr. cbn. split; [reflexivity|]. right. split; [exact Hdata|].
       exists (skipn n d ++ concat rest1). split; [exact HRsplit|]. left. split; [reflexivity|]. rewrite HRd. exact HH3.
     + fold st2. rewrite Hrr. cbn. split; [reflexivity|]. right. split; [exact Hdata|].
